@@ -1109,83 +1109,184 @@ Section Sim.
     rv g k v -> rv g' k v.
   Proof. intros g g' k v Hf Hc (cj & F1 & F2). exists cj. rewrite Hf. auto. Qed.
 
-  (* ---------------------------------------------------------------- the arguments: evaluated left to right, each
-     parked in its own register; nothing else changes *)
-  Definition args_res (fuel : nat) (env : fenv) (s : rstate) (k0 pos len : nat) (acc : list rvalue)
+  (* ---------------------------------------------------------------- registers below d keep their value *)
+  Definition regkeep (d : nat) (g g' : gstate) : Prop := forall r0 v, r0 < d -> small r0 -> rv g r0 v -> rv g' r0 v.
+  Lemma regkeep_refl : forall d g, regkeep d g g.
+  Proof. intros d g r0 v _ _ H. exact H. Qed.
+  Lemma regkeep_trans : forall d g1 g2 g3, regkeep d g1 g2 -> regkeep d g2 g3 -> regkeep d g1 g3.
+  Proof. intros d g1 g2 g3 H1 H2 r0 v Hr Hs H. apply H2; [exact Hr|exact Hs|]. now apply H1. Qed.
+  Lemma regkeep_mono : forall d d' g g', d <= d' -> regkeep d' g g' -> regkeep d g g'.
+  Proof. intros d d' g g' Hle H r0 v Hr Hs Hv. apply H; [lia|exact Hs|exact Hv]. Qed.
+  Lemma regkeep_same : forall d g g', frames g' = frames g -> (forall cj w, cell_get g cj = Some w -> cell_get g' cj = Some w) -> regkeep d g g'.
+  Proof. intros d g g' Hf Hc r0 v _ _ H. eapply rv_same; eassumption. Qed.
+
+  (* store_fast #d : park the value on the stack in register d *)
+  Lemma park : forall pins env s a1 g1 k1 d w, nth_error code k1 = Some (mkI OP_STORE_FAST [reg d]) ->
+    a_ip a1 = k1 -> a_ops a1 = [w] -> Rg pins env s g1 -> small d ->
+    exists g2, xrun prog name code a1 g1 (upd a1 (S k1) []) g2 /\ Rg pins env s g2 /\ tl (frames g2) = tl (frames g1) /\
+               lkeepA (frames g1) (frames g2) /\ rv g2 d w /\ out g2 = out g1 /\
+               (forall r0 v, r0 <> d -> small r0 -> rv g1 r0 v -> rv g2 r0 v).
+  Proof.
+    intros pins env s a1 g1 k1 d w Hi Hip Hops HG Hsd. subst k1.
+    set (i1 := mkI OP_STORE_FAST [reg d]) in *.
+    destruct (reg_bind pins env s (trc name a1 g1 i1) d w (Rg_trc _ _ _ _ _ _ HG)) as (g2 & Hb2 & HG2 & Ht2 & Hc2 & Ho2 & Hf2 & Hk2).
+    exists g2. split; [|split; [exact HG2|split; [exact Ht2|split; [|split; [|split; [exact Ho2|]]]]]].
+    - eapply (xstep_next prog name code a1 g1 i1 _ (a_ip a1) (set_ops a1 [])); [reflexivity|exact Hi|apply dec_store_fast|].
+      apply (exec_store_fast (reg d) a1 _ w g2); [exact Hops|exact Hb2].
+    - apply (lkeepA_other _ _ (reg d)); [intros k E; discriminate E|]. intros z Hz. exact (Hk2 z Hz).
+    - exists (N.of_nat (length (cells (trc name a1 g1 i1)))). split; [exact Hf2|].
+      unfold cell_get. rewrite Hc2, Nnat.Nat2N.id, nth_error_app2, Nat.sub_diag by lia. reflexivity.
+    - intros r0 v Hne Hs0 (cj & F1 & F2). exists cj. split.
+      + rewrite Hk2; [exact F1|]. intros E. apply reg_inj in E; [congruence|exact Hs0|exact Hsd].
+      + unfold cell_get in *. rewrite Hc2. rewrite nth_error_app1; [exact F2|]. apply nth_error_Some. cbn [trc add_trace cells]. congruence.
+  Qed.
+
+  (* load_fast #d : push the parked value *)
+  Lemma unpark : forall a g kk d w, nth_error code kk = Some (mkI OP_LOAD_FAST [reg d]) -> a_ip a = kk -> rv g d w ->
+    xrun prog name code a g (upd a (S kk) (a_ops a ++ [w])) (trc name a g (mkI OP_LOAD_FAST [reg d])).
+  Proof.
+    intros a g kk d w Hi Hip (cj & F1 & F2). subst kk.
+    eapply (xstep_next prog name code a g _ _ (a_ip a) (set_ops a (a_ops a ++ [w]))); [reflexivity|exact Hi|apply dec_load_fast|].
+    exact (exec_load_fast (reg d) a (trc name a g (mkI OP_LOAD_FAST [reg d])) cj w F1 F2).
+  Qed.
+
+  (* one instruction on the operand stack *)
+  Lemma binop_run : forall o va vb s a g kop, nth_error code kop = Some (op_instr o) -> a_ip a = kop ->
+    a_ops a = [inj va; inj vb] ->
+    match binop_sem o va vb s with
+    | EVal v s' => s' = s /\ first_order v /\ xrun prog name code a g (upd a (S kop) [inj v]) (trc name a g (op_instr o))
+    | EFail f s' => s' = s /\ exists e0, xfail prog name code a g e0 (trc name a g (op_instr o)) /\ err_rel f e0
+    | _ => False end.
+  Proof.
+    intros o va vb s a g kop Hi Hip Hops. subst kop.
+    destruct (arith_op_dec o) as [->|[->|Hao]].
+    - pose proof (eq_agree va vb s) as Hag. pose proof (exec_equ a (trc name a g (op_instr BEq)) _ _ Hops) as He.
+      destruct (binop_sem BEq va vb s) as [v s1|s1|f s1|]; try contradiction.
+      + destruct Hag as (-> & b & -> & Hve). rewrite Hve in He. split; [reflexivity|]. split; [exact Logic.I|].
+        eapply (xstep_next prog name code a g _ _ (a_ip a) (set_ops a [VBool b])); [reflexivity|exact Hi|apply dec_equ|exact He].
+      + destruct Hag as (-> & Hve & Hrel). rewrite Hve in He. split; [reflexivity|]. exists E_invalid_op. split; [|exact Hrel].
+        eapply xstep_fail; [reflexivity|exact Hi|apply dec_equ|exact He].
+    - pose proof (neq_agree va vb s) as Hag. pose proof (exec_neq a (trc name a g (op_instr BNeq)) _ _ Hops) as He.
+      destruct (binop_sem BNeq va vb s) as [v s1|s1|f s1|]; try contradiction.
+      + destruct Hag as (-> & b & -> & Hve). rewrite Hve in He. split; [reflexivity|]. split; [exact Logic.I|].
+        eapply (xstep_next prog name code a g _ _ (a_ip a) (set_ops a [VBool (negb b)])); [reflexivity|exact Hi|apply dec_neq|exact He].
+      + destruct Hag as (-> & Hve & Hrel). rewrite Hve in He. split; [reflexivity|]. exists E_invalid_op. split; [|exact Hrel].
+        eapply xstep_fail; [reflexivity|exact Hi|apply dec_neq|exact He].
+    - pose proof (binop_agree o va vb s Hao) as Hag.
+      pose proof (exec_bin_op (binop_sym o) a (trc name a g (op_instr o)) _ _ Hops) as He.
+      destruct (binop_sem o va vb s) as [v s1|s1|f s1|]; try contradiction.
+      + destruct Hag as (-> & Hfov & Hbo). rewrite Hbo in He. split; [reflexivity|]. split; [exact Hfov|].
+        eapply (xstep_next prog name code a g _ _ (a_ip a) (set_ops a [inj v])); [reflexivity|exact Hi|apply dec_op_instr_arith; exact Hao|exact He].
+      + destruct Hag as (-> & e & Hbo & Hrel). rewrite Hbo in He. split; [reflexivity|]. exists e. split; [|exact Hrel].
+        eapply xstep_fail; [reflexivity|exact Hi|apply dec_op_instr_arith; exact Hao|exact He].
+  Qed.
+
+  (* ---------------------------------------------------------------- the result of an expression with calls *)
+  Definition rhs_res (pins : pinset) (env : fenv) (d fin : nat) (a : act) (g : gstate) (r : eres) : Prop :=
+    match r with
+    | EVal v s' => first_order v /\ exists a' g', xrun prog name code a g a' g' /\ a_ip a' = fin /\ a_ops a' = [inj v] /\
+          Rg pins env s' g' /\ tl (frames g') = tl (frames g) /\ act_same a a' /\ a_ss a' = a_ss a /\ lkeepA (frames g) (frames g') /\
+          regkeep d g g'
+    | ENoVal s' => exists a' g', xrun prog name code a g a' g' /\ a_ip a' = fin /\ a_ops a' = [] /\
+          Rg pins env s' g' /\ tl (frames g') = tl (frames g) /\ act_same a a' /\ a_ss a' = a_ss a /\ lkeepA (frames g) (frames g') /\
+          regkeep d g g'
+    | EFail f s' => fail_post f (exists e0 g', xfail prog name code a g e0 g' /\ err_rel_s f e0 /\ out g' = rout s')
+    | EFuel => True
+    end.
+
+  Definition rhs_spec (e : expr) : Prop :=
+    forall pins d fuel k a g env s B,
+    fuel <= FU -> ok_rhs FT SP B e = true -> bound_in B env -> d + length (xcode d e) <= c + length code + 2 ->
+    code_at code k (xcode d e) -> k + length (xcode d e) < length code ->
+    a_ip a = k -> a_cb a = cb -> a_ops a = [] -> Rg pins env s g ->
+    rhs_res pins env d (k + length (xcode d e)) a g (eval fuel env e s).
+
+  (* a call-free expression *)
+  Lemma rhs_pure : forall e pins d fuel k a g env s B,
+    ok_expr B e = true -> bound_in B env -> d + length (pcode d e) <= c + length code + 2 ->
+    code_at code k (pcode d e) -> k + length (pcode d e) < length code ->
+    a_ip a = k -> a_ops a = [] -> Rg pins env s g ->
+    rhs_res pins env d (k + length (pcode d e)) a g (eval fuel env e s).
+  Proof.
+    intros e pins d fuel k a g env s B Hoe Hb Hd Hc Hend Hip Hops HG.
+    destruct (ok_expr_parts _ _ Hoe) as (Hp & Hl & Hu).
+    pose proof (expr_run_ext pins e d fuel k a g env s Hp Hl
+                  ltac:(intros x Hx; destruct (Hu x Hx) as [Hs0 Hin]; split; [eapply bound_in_uname; eassumption|eapply bound_in_look; eassumption])
+                  ltac:(lia) Hc Hend Hip Hops HG) as He.
+    destruct (eval fuel env e s) as [v s1|s1|f s1|]; cbn [rhs_res]; [|contradiction| |exact Logic.I].
+    - destruct He as (-> & Hfo & g1 & R1 & HG1 & He1). split; [exact Hfo|].
+      exists (upd a (k + length (pcode d e)) [inj v]), g1. split; [exact R1|]. split; [reflexivity|]. split; [reflexivity|].
+      split; [exact HG1|]. split; [exact (ext_tail _ _ _ _ _ He1)|]. split; [repeat split|]. split; [reflexivity|].
+      split; [exact (lkeepA_ext _ _ _ _ _ He1)|]. intros r0 v0 Hr Hs0 Hv. eapply rv_ext; eassumption.
+    - destruct He as (-> & e0 & g' & Hf & Hr & Ho). apply fail_post_intro. exists e0, g'.
+      split; [exact Hf|]. split; [now apply err_rel_s_of|exact Ho].
+  Qed.
+
+  (* the arguments of a call: evaluated left to right, each parked in its own register *)
+  Definition args_res (fuel : nat) (env : fenv) (k0 pos len : nat) (acc : list rvalue)
              (nargs : nat) (pins : pinset) (a : act) (g : gstate) (r : (list rvalue * rstate) + eres) : Prop :=
     match r with
     | inl (vs, s') =>
-      s' = s /\ exists vs', vs = rev acc ++ vs' /\ length vs' = nargs /\ Forall first_order vs' /\
-        exists g', xrun prog name code a g (upd a (pos + len) []) g' /\ Rg pins env s g' /\
-          tl (frames g') = tl (frames g) /\
-          (forall r0 v, r0 < k0 -> small r0 -> rv g r0 v -> rv g' r0 v) /\
+      exists vs', vs = rev acc ++ vs' /\ length vs' = nargs /\ Forall first_order vs' /\
+        exists a' g', xrun prog name code a g a' g' /\ a_ip a' = pos + len /\ a_ops a' = [] /\ Rg pins env s' g' /\
+          tl (frames g') = tl (frames g) /\ act_same a a' /\ a_ss a' = a_ss a /\
+          regkeep k0 g g' /\
           (forall j v, nth_error vs' j = Some v -> rv g' (k0 + j) (inj v)) /\
           lkeepA (frames g) (frames g')
-    | inr (EFail f s') => s' = s /\ exists e0 g', xfail prog name code a g e0 g' /\ err_rel f e0 /\ out g' = rout s
+    | inr (EFail f s') => fail_post f (exists e0 g', xfail prog name code a g e0 g' /\ err_rel_s f e0 /\ out g' = rout s')
     | inr EFuel => True
     | inr _ => False
     end.
 
-  Lemma args_run : forall args k0 pos pins a g env s B acc fuel,
-    forallb (ok_expr B) args = true -> bound_in B env -> small (k0 + length args) -> k0 + length args <= c + length code + 2 ->
+  Lemma args_run : forall args, Forall rhs_spec args -> forall k0 pos pins a g env s B acc fuel,
+    fuel <= FU -> ok_cexprs FT SP B args = true -> bound_in B env ->
+    k0 + length (argcode k0 args) <= c + length code + 2 ->
     code_at code pos (argcode k0 args) -> pos + length (argcode k0 args) < length code ->
-    a_ip a = pos -> a_ops a = [] -> Rg pins env s g ->
-    args_res fuel env s k0 pos (length (argcode k0 args)) acc (length args) pins a g (evals_ fuel env args s acc).
+    a_ip a = pos -> a_cb a = cb -> a_ops a = [] -> Rg pins env s g ->
+    args_res fuel env k0 pos (length (argcode k0 args)) acc (length args) pins a g (evals_ fuel env args s acc).
   Proof.
-    induction args as [|e l IH]; intros k0 pos pins a g env s B acc fuel Hok Hb Hsm Hk0 Hc Hend Hip Hops HG.
-    - cbn [evals_ argcode length args_res]. split; [reflexivity|]. exists []. rewrite app_nil_r. split; [reflexivity|].
-      split; [reflexivity|]. split; [constructor|]. exists g. rewrite Nat.add_0_r. rewrite <- Hip, <- Hops, act_eta.
-      split; [apply xrun_refl|]. split; [exact HG|]. split; [reflexivity|]. split; [auto|].
+    induction args as [|e l IH]; intros HF k0 pos pins a g env s B acc fuel Hfu Hok Hb Hk0 Hc Hend Hip Hcb Hops HG.
+    - cbn [evals_ argcode length args_res]. exists []. rewrite app_nil_r. split; [reflexivity|].
+      split; [reflexivity|]. split; [constructor|]. exists a, g. rewrite Nat.add_0_r.
+      split; [apply xrun_refl|]. split; [exact Hip|]. split; [exact Hops|]. split; [exact HG|]. split; [reflexivity|].
+      split; [apply act_same_refl|]. split; [reflexivity|]. split; [apply regkeep_refl|].
       split; [intros j v Hj; destruct j; discriminate|apply lkeepA_refl].
-    - cbn [forallb] in Hok. apply Bool.andb_true_iff in Hok as [Hoe Hol].
+    - pose proof (Forall_inv HF) as He0. pose proof (Forall_inv_tail HF) as Hl0.
+      cbn [ok_cexprs] in Hok. apply Bool.andb_true_iff in Hok as [Hoe Hol].
       cbn [argcode] in *. rewrite !app_length in *. cbn [length] in *.
       apply code_at_app in Hc as [Hce Hc]. apply code_at_app in Hc as [Hi Hcl]. apply code_at_cons in Hi as [Hi _].
-      set (le := length (pcode k0 e)) in *.
-      destruct (ok_expr_parts _ _ Hoe) as (Hp & Hl & Hu).
-      pose proof (expr_run_ext pins e k0 fuel pos a g env s Hp Hl
-                    ltac:(intros x Hx; destruct (Hu x Hx) as [Hs Hin]; split; [eapply bound_in_uname; eassumption|eapply bound_in_look; eassumption])
-                    ltac:(lia) Hce ltac:(fold le; lia) Hip Hops HG) as He.
-      fold le in He. cbn [evals_].
-      destruct (eval fuel env e s) as [v s1|s1|f s1|]; cbn [args_res]; [|contradiction| |exact Logic.I].
-      2:{ destruct He as (-> & e0 & g' & Hf & Hr & Ho). split; [reflexivity|]. exists e0, g'. auto. }
-      destruct He as (-> & Hfo & g1 & R1 & HG1 & He1).
-      set (a1 := upd a (pos + le) [inj v]) in *.
-      set (i1 := mkI OP_STORE_FAST [reg k0]) in *.
-      destruct (reg_bind pins env s (trc name a1 g1 i1) k0 (inj v) (Rg_trc _ _ _ _ _ _ HG1)) as (g2 & Hb2 & HG2 & Ht2 & Hc2 & Ho2 & Hf2 & Hk2).
-      set (a2 := upd a (S (pos + le)) []).
-      assert (R2 : xrun prog name code a g a2 g2).
-      { eapply xrun_trans; [exact R1|].
-        eapply (xstep_next prog name code a1 g1 i1 _ (pos + le) (set_ops a1 [])); [reflexivity|exact Hi|apply dec_store_fast|].
-        apply (exec_store_fast (reg k0) a1 _ (inj v) g2); [reflexivity|exact Hb2]. }
-      assert (Hsk : small k0) by (eapply small_le; [|exact Hsm]; lia).
-      pose proof (IH (S k0) (S (pos + le)) pins a2 g2 env s B (v :: acc) fuel Hol Hb
-                    ltac:(eapply small_le; [|exact Hsm]; lia) ltac:(lia)
-                    ltac:(replace (S (pos + le)) with (pos + le + 1) by lia; exact Hcl) ltac:(lia) eq_refl eq_refl HG2) as Hl2.
-      destruct (evals_ fuel env l s (v :: acc)) as [[vs s2]|r]; cbn [args_res] in Hl2 |- *.
-      + destruct Hl2 as (-> & vs' & -> & Hlv & Hfos & g3 & R3 & HG3 & Ht3 & Hlow3 & Hreg3 & Hlk3).
-        split; [reflexivity|]. exists (v :: vs'). split; [cbn [rev]; now rewrite <- app_assoc|].
-        split; [cbn [length]; now rewrite Hlv|]. split; [constructor; assumption|]. exists g3.
-        replace (pos + (le + (1 + length (argcode (S k0) l)))) with (S (pos + le) + length (argcode (S k0) l)) by lia.
-        split; [eapply xrun_trans; [exact R2|exact R3]|]. split; [exact HG3|].
-        split; [rewrite Ht3, Ht2; exact (ext_tail _ _ _ _ _ He1)|].
-        assert (Hstep : forall r0 v0, r0 <= k0 -> small r0 -> (r0 < k0 -> rv g r0 v0) -> (r0 = k0 -> v0 = inj v) -> rv g2 r0 v0).
-        { intros r0 v0 Hr0 Hs0 Hold Hnew. destruct (Nat.eq_dec r0 k0) as [->|Hne].
-          - rewrite (Hnew eq_refl). exists (N.of_nat (length (cells (trc name a1 g1 i1)))). split; [exact Hf2|].
-            unfold cell_get. rewrite Hc2, Nnat.Nat2N.id, nth_error_app2, Nat.sub_diag by lia. reflexivity.
-          - assert (Hlt : r0 < k0) by lia. pose proof (rv_ext _ _ _ _ _ _ _ He1 Hlt Hs0 (Hold Hlt)) as (cj & F1 & F2).
-            exists cj. split.
-            + rewrite Hk2; [exact F1|]. intros E. apply reg_inj in E; [lia|exact Hs0|exact Hsk].
-            + unfold cell_get in *. rewrite Hc2. rewrite nth_error_app1; [exact F2|]. apply nth_error_Some. cbn [trc add_trace cells]. congruence. }
+      set (le := length (ccode k0 e)) in *.
+      assert (Hsk : small k0) by (eapply small_le; [|exact Hsmall]; lia).
+      pose proof (He0 pins k0 fuel pos a g env s B Hfu Hoe Hb ltac:(unfold xcode; fold le; lia) Hce ltac:(unfold xcode; fold le; lia) Hip Hcb Hops HG) as He.
+      unfold xcode in He. fold le in He. cbn [evals_].
+      destruct (eval fuel env e s) as [v s1|s1|f s1|]; cbn [rhs_res args_res] in He |- *.
+      2:{ exact Logic.I. }
+      2:{ exact He. }
+      2:{ exact Logic.I. }
+      destruct He as (Hfo & a1 & g1 & R1 & Hip1 & Hops1 & HG1 & Hf1 & Ha1 & Hss1 & Hlk1 & Hrk1).
+      destruct (park pins env s1 a1 g1 (pos + le) k0 (inj v) Hi Hip1 Hops1 HG1 Hsk) as (g2 & R2 & HG2 & Ht2 & Hlk2 & Hrv2 & Ho2 & Hoth2).
+      set (a2 := upd a1 (S (pos + le)) []) in *.
+      pose proof (IH Hl0 (S k0) (S (pos + le)) pins a2 g2 env s1 B (v :: acc) fuel Hfu Hol Hb ltac:(lia)
+                    ltac:(replace (S (pos + le)) with (pos + le + 1) by lia; exact Hcl) ltac:(lia) eq_refl
+                    ltac:(cbn [a2 upd set_ip set_ops a_cb]; rewrite (proj2 (proj2 Ha1)); exact Hcb) eq_refl HG2) as Hl2.
+      destruct (evals_ fuel env l s1 (v :: acc)) as [[vs s2]|r]; cbn [args_res] in Hl2 |- *.
+      + destruct Hl2 as (vs' & -> & Hlv & Hfos & a3 & g3 & R3 & Hip3 & Hops3 & HG3 & Ht3 & Ha3 & Hss3 & Hrk3 & Hreg3 & Hlk3).
+        exists (v :: vs'). split; [cbn [rev]; now rewrite <- app_assoc|].
+        split; [cbn [length]; now rewrite Hlv|]. split; [constructor; assumption|]. exists a3, g3.
+        split; [eapply xrun_trans; [exact R1|eapply xrun_trans; [exact R2|exact R3]]|].
+        split; [rewrite Hip3; lia|]. split; [exact Hops3|]. split; [exact HG3|].
+        split; [rewrite Ht3, Ht2; exact Hf1|].
+        split; [eapply act_same_trans; [exact Ha1|]; eapply act_same_trans; [|exact Ha3]; repeat split|].
+        split; [rewrite Hss3; cbn [a2 upd set_ip set_ops a_ss]; exact Hss1|].
         split; [|split].
-        * intros r0 v0 Hr0 Hs0 Hrv. apply Hlow3; [lia|exact Hs0|]. apply Hstep; [lia|exact Hs0|auto|lia].
+        * intros r0 v0 Hr Hs0 Hv. apply Hrk3; [lia|exact Hs0|]. apply Hoth2; [lia|exact Hs0|]. apply Hrk1; [exact Hr|exact Hs0|exact Hv].
         * intros j v0 Hj. destruct j as [|j].
-          -- cbn [nth_error] in Hj. inversion Hj; subst v0. rewrite Nat.add_0_r.
-             apply Hlow3; [lia|exact Hsk|]. apply Hstep; [lia|exact Hsk|lia|reflexivity].
+          -- cbn [nth_error] in Hj. inversion Hj; subst v0. rewrite Nat.add_0_r. apply Hrk3; [lia|exact Hsk|exact Hrv2].
           -- cbn [nth_error] in Hj. replace (k0 + S j) with (S k0 + j) by lia. now apply Hreg3.
-        * eapply lkeepA_trans; [|exact Hlk3]. eapply lkeepA_trans; [exact (lkeepA_ext _ _ _ _ _ He1)|].
-          apply (lkeepA_other _ _ (reg k0)); [intros k E; discriminate E|]. intros z Hz. exact (Hk2 z Hz).
+        * eapply lkeepA_trans; [exact Hlk1|]. eapply lkeepA_trans; [exact Hlk2|exact Hlk3].
       + destruct r as [? ?|?|f s2|]; try exact Hl2.
-        destruct Hl2 as (-> & e0 & g' & Hf & Hr & Ho). split; [reflexivity|]. exists e0, g'. split; [eapply xrun_fail; [exact R2|exact Hf]|]. auto.
+        eapply fail_post_map; [|exact Hl2]. intros (e0 & g' & Hf & Hr). exists e0, g'.
+        split; [eapply xrun_fail; [exact R1|eapply xrun_fail; [exact R2|exact Hf]]|exact Hr].
   Qed.
 
   (* reload the arguments in order *)
@@ -1248,216 +1349,507 @@ Section Sim.
     exec_d (DCall None) a g = SCall loc cbf o (set_ops a []) g.
   Proof. intros a g o loc cbf H. unfold exec_d. rewrite H, unsnoc_app. reflexivity. Qed.
 
-  (* the result of a right-hand side *)
-  Definition rhs_res (pins : pinset) (env : fenv) (fin : nat) (a : act) (g : gstate) (r : eres) : Prop :=
-    match r with
-    | EVal v s' => first_order v /\ exists a' g', xrun prog name code a g a' g' /\ a_ip a' = fin /\ a_ops a' = [inj v] /\
-          Rg pins env s' g' /\ tl (frames g') = tl (frames g) /\ act_same a a' /\ a_ss a' = a_ss a /\ lkeepA (frames g) (frames g')
-    | ENoVal s' => exists a' g', xrun prog name code a g a' g' /\ a_ip a' = fin /\ a_ops a' = [] /\
-          Rg pins env s' g' /\ tl (frames g') = tl (frames g) /\ act_same a a' /\ a_ss a' = a_ss a /\ lkeepA (frames g) (frames g')
-    | EFail f s' => fail_post f (exists e0 g', xfail prog name code a g e0 g' /\ err_rel_s f e0 /\ out g' = rout s')
-    | EFuel => True
-    end.
-
-  Lemma rhs_run : forall pins e fuel k a g env s B,
-    fuel <= FU -> ok_rhs FT SP B e = true -> bound_in B env ->
-    code_at code k (xcode c e) -> k + length (xcode c e) < length code ->
-    a_ip a = k -> a_cb a = cb -> a_ops a = [] -> Rg pins env s g ->
-    rhs_res pins env (k + length (xcode c e)) a g (eval fuel env e s).
+  (* only a call can return no value *)
+  Lemma binop_noval : forall o va vb s s', binop_sem o va vb s <> ENoVal s'.
   Proof.
-    intros pins e fuel k a g env s B Hfu Hok Hb Hc Hend Hip Hcb Hops HG. subst k. set (k := a_ip a) in *.
-    unfold ok_rhs in Hok. apply Bool.orb_true_iff in Hok as [Hoe|Hoc].
-    { (* a call-free expression *)
-      destruct (ok_expr_parts _ _ Hoe) as (Hp & _ & _). rewrite (xcode_pure c e Hp) in *.
-      pose proof (expr_run pins e c fuel k a g env s B Hoe Hb ltac:(lia) Hc Hend eq_refl Hops HG) as He.
-      destruct (eval fuel env e s) as [v s1|s1|f s1|]; cbn [rhs_res]; [|contradiction| |exact Logic.I].
-      - destruct He as (-> & Hfo & g1 & R1 & HG1 & Hf1 & Hlk1). split; [exact Hfo|].
-        exists (upd a (k + length (pcode c e)) [inj v]), g1. repeat (split; try assumption; try reflexivity).
-      - destruct He as (-> & e0 & g' & Hf & Hr & Ho). apply fail_post_intro. exists e0, g'.
-        split; [exact Hf|]. split; [now apply err_rel_s_of|exact Ho]. }
-    (* a call f(args) *)
-    destruct e as [| | | | | | | | | |fe args|args| | |]; try discriminate.
-    2:{ (* self(args): the executing function, with the activation's own captured cells *)
-      cbn [ok_call] in Hoc. revert Hoc. case_eq SP; [intros ps ESP Hoc|intros ESP Hoc; discriminate].
+    intros o va vb s s' H. destruct (arith_op_dec o) as [->|[->|Hao]].
+    - pose proof (eq_agree va vb s) as Hg. rewrite H in Hg. exact Hg.
+    - pose proof (neq_agree va vb s) as Hg. rewrite H in Hg. exact Hg.
+    - pose proof (binop_agree o va vb s Hao) as Hg. rewrite H in Hg. exact Hg.
+  Qed.
+  Definition op_shape (e : expr) : bool :=
+    match e with EBin _ _ _ | EAnd _ _ | EOr _ _ | ENot _ | ENeg _ => true | _ => false end.
+  Lemma op_noval : forall e, op_shape e = true -> forall fuel env s s', eval fuel env e s <> ENoVal s'.
+  Proof.
+    intros e He [|fuel] env s s' H; [discriminate|]. destruct e; try discriminate He.
+    - rewrite eval_EBin in H. destruct (eval fuel env e1 s) as [va s1|s1|f s1|]; try discriminate.
+      destruct (eval fuel env e2 s1) as [vb s2|s2|f s2|]; try discriminate. exact (binop_noval _ _ _ _ _ H).
+    - rewrite eval_EAnd in H. destruct (eval fuel env e1 s) as [[?|[|]|?| |? ? ?] s1|s1|f s1|]; try discriminate.
+      destruct (eval fuel env e2 s1) as [[?|?|?| |? ? ?] s2|s2|f s2|]; discriminate.
+    - rewrite eval_EOr in H. destruct (eval fuel env e1 s) as [[?|[|]|?| |? ? ?] s1|s1|f s1|]; try discriminate.
+      destruct (eval fuel env e2 s1) as [[?|?|?| |? ? ?] s2|s2|f s2|]; discriminate.
+    - rewrite eval_ENot in H. destruct (eval fuel env e s) as [[?|?|?| |? ? ?] s1|s1|f s1|]; discriminate.
+    - rewrite eval_ENeg in H. destruct (eval fuel env e s) as [[z|?|?| |? ? ?] s1|s1|f s1|]; try discriminate.
+      unfold arith_res in H. destruct (i32_ok (- z)); discriminate.
+  Qed.
+  Lemma pure_noval : forall e, pure e = true -> forall fuel env s s', eval fuel env e s <> ENoVal s'.
+  Proof.
+    induction e; intros Hp fuel env st0 s' H; try discriminate Hp; destruct fuel as [|fuel]; try discriminate H; cbn [pure] in Hp.
+    - rewrite eval_EVar in H. destruct (lookup_scopes x (locals env ++ captured env)); [|discriminate]. destruct (sget st0 n); discriminate.
+    - exact (op_noval (EBin o e1 e2) eq_refl (S fuel) env st0 s' H).
+    - exact (op_noval (EAnd e1 e2) eq_refl (S fuel) env st0 s' H).
+    - exact (op_noval (EOr e1 e2) eq_refl (S fuel) env st0 s' H).
+    - exact (op_noval (ENot e) eq_refl (S fuel) env st0 s' H).
+    - exact (op_noval (ENeg e) eq_refl (S fuel) env st0 s' H).
+    - apply Bool.andb_true_iff in Hp as [H1 H2]. rewrite eval_ENilOr in H.
+      destruct (eval fuel env e1 st0) as [[?|?|?| |? ? ?] s1|s1|f s1|] eqn:E1; try discriminate.
+      + exact (IHe2 H2 _ _ _ _ H).
+      + exact (IHe1 H1 _ _ _ _ E1).
+    - rewrite eval_EGet in H. destruct (eval fuel env e st0) as [[?|?|?| |? ? ?] s1|s1|f s1|] eqn:E1; try discriminate.
+      exact (IHe Hp _ _ _ _ E1).
+  Qed.
+  Lemma operand_noval : forall B e, ok_cexpr FT SP B e = true -> is_call e = false ->
+    forall fuel env s s', eval fuel env e s <> ENoVal s'.
+  Proof.
+    intros B e Hok Hc. rewrite ok_cexpr_eq in Hok. apply Bool.orb_true_iff in Hok as [Hoe|Hoc].
+    - apply pure_noval. now apply ok_expr_parts in Hoe as (Hp & _ & _).
+    - apply op_noval. destruct e; try reflexivity; try discriminate Hoc; discriminate Hc.
+  Qed.
+
+  Lemma act_same_upd : forall a a' ip ops, act_same a a' -> act_same a (upd a' ip ops).
+  Proof. intros a a' ip ops (A1 & A2 & A3). repeat split; assumption. Qed.
+  Ltac atpos H := first [exact H | match type of H with
+    | nth_error _ ?p = _ => match goal with |- nth_error _ ?q = _ => replace q with p by lia; exact H end
+    | code_at _ ?p _ => match goal with |- code_at _ ?q _ => replace q with p by lia; exact H end end].
+  (* store_skip that does not skip: park the boolean in register d *)
+  Lemma park_skip : forall pins env s a1 g1 k1 d (p : bool) n (b : bool), nth_error code k1 = Some (mkI OP_STORE_SKIP [reg d; if p then s_one else s_zero; sN n]) ->
+    small n -> (if p then b else negb b) = false ->
+    a_ip a1 = k1 -> a_ops a1 = [VBool b] -> Rg pins env s g1 -> small d ->
+    exists g2, xrun prog name code a1 g1 (upd a1 (S k1) []) g2 /\ Rg pins env s g2 /\ tl (frames g2) = tl (frames g1) /\
+               lkeepA (frames g1) (frames g2) /\ rv g2 d (VBool b) /\ out g2 = out g1 /\
+               (forall r0 v, r0 <> d -> small r0 -> rv g1 r0 v -> rv g2 r0 v).
+  Proof.
+    intros pins env s a1 g1 k1 d p n b Hi Hsn Hpb Hip Hops HG Hsd. subst k1.
+    set (i1 := mkI OP_STORE_SKIP [reg d; if p then s_one else s_zero; sN n]) in *.
+    destruct (reg_bind pins env s (trc name a1 g1 i1) d (VBool b) (Rg_trc _ _ _ _ _ _ HG)) as (g2 & Hb2 & HG2 & Ht2 & Hc2 & Ho2 & Hf2 & Hk2).
+    exists g2. split; [|split; [exact HG2|split; [exact Ht2|split; [|split; [|split; [exact Ho2|]]]]]].
+    - eapply (xstep_next prog name code a1 g1 i1 _ (a_ip a1) (set_ops a1 [])); [reflexivity|exact Hi|apply dec_store_skip; exact Hsn|].
+      rewrite (exec_store_skip (reg d) p (Z.of_nat n) a1 _ (VBool b) Hops). rewrite Hpb, Hb2. reflexivity.
+    - apply (lkeepA_other _ _ (reg d)); [intros k E; discriminate E|]. intros z Hz. exact (Hk2 z Hz).
+    - exists (N.of_nat (length (cells (trc name a1 g1 i1)))). split; [exact Hf2|].
+      unfold cell_get. rewrite Hc2, Nnat.Nat2N.id, nth_error_app2, Nat.sub_diag by lia. reflexivity.
+    - intros r0 v Hne Hs0 (cj & F1 & F2). exists cj. split.
+      + rewrite Hk2; [exact F1|]. intros E. apply reg_inj in E; [congruence|exact Hs0|exact Hsd].
+      + unfold cell_get in *. rewrite Hc2. rewrite nth_error_app1; [exact F2|]. apply nth_error_Some. cbn [trc add_trace cells]. congruence.
+  Qed.
+
+  Lemma rhs_spec_pure : forall e, (forall B, ok_rhs FT SP B e = true -> ok_expr B e = true) -> rhs_spec e.
+  Proof.
+    intros e He pins d fuel k a g env s B Hfu Hok Hb Hd Hc Hend Hip Hcb Hops HG.
+    pose proof (He B Hok) as Hoe. destruct (ok_expr_parts _ _ Hoe) as (Hp & _ & _). rewrite (xcode_pure d e Hp) in *.
+    exact (rhs_pure e pins d fuel k a g env s B Hoe Hb Hd Hc Hend Hip Hops HG).
+  Qed.
+  Ltac pure_only := apply rhs_spec_pure; intros B0 H0; unfold ok_rhs in H0; rewrite ok_cexpr_eq in H0;
+                    apply Bool.orb_true_iff in H0 as [H0|H0]; [exact H0|discriminate H0].
+
+  (* and / or : the two share everything but the constant *)
+  Lemma rhs_logic : forall (p : bool) ea eb, rhs_spec ea -> rhs_spec eb ->
+    rhs_spec (if p then EOr ea eb else EAnd ea eb).
+  Proof.
+    intros p ea eb IHa IHb pins d fuel k a g env s B Hfu Hok Hb Hd Hc Hend Hip Hcb Hops HG.
+    unfold ok_rhs in Hok. rewrite ok_cexpr_eq in Hok. apply Bool.orb_true_iff in Hok as [Hoe|Hoc].
+    { destruct (ok_expr_parts _ _ Hoe) as (Hp & _ & _). rewrite (xcode_pure d _ Hp) in *.
+      exact (rhs_pure _ pins d fuel k a g env s B Hoe Hb Hd Hc Hend Hip Hops HG). }
+    assert (Hparts : is_call ea = false /\ is_call eb = false /\ ok_cexpr FT SP B ea = true /\ ok_cexpr FT SP B eb = true).
+    { destruct p; rewrite !Bool.andb_true_iff, !Bool.negb_true_iff in Hoc; tauto. }
+    destruct Hparts as (Hca & Hcb' & Hoa & Hob). clear Hoc.
+    destruct fuel as [|fuel]; [destruct p; exact Logic.I|].
+    assert (Hcode : xcode d (if p then EOr ea eb else EAnd ea eb) =
+                    ccode (S d) ea ++ [mkI OP_STORE_SKIP [reg d; if p then s_one else s_zero; sN (length (ccode (S d) eb) + 3)]]
+                      ++ ccode (S d) eb ++ [mkI OP_LOAD_FAST [reg d]; mkI OP_BIN_OP [if p then op_or else op_and]])
+      by (destruct p; reflexivity).
+    rewrite Hcode in *. clear Hcode. rewrite !app_length in *. cbn [length] in *.
+    set (la := length (ccode (S d) ea)) in *. set (lb := length (ccode (S d) eb)) in *.
+    apply code_at_app in Hc as [Hca' Hc]. apply code_at_cons in Hc as [Hi1 Hc].
+    apply code_at_app in Hc as [Hcb2 Hc]. apply code_at_cons in Hc as [Hi2 Hc]. apply code_at_cons in Hc as [Hi3 _].
+    fold la in Hi1, Hcb2, Hi2, Hi3. fold lb in Hi2, Hi3.
+    assert (Hsd : small d) by (eapply small_le; [|exact Hsmall]; lia).
+    assert (Hsk : small (lb + 3)) by (eapply small_le; [|exact Hsmall]; lia).
+    pose proof (IHa pins (S d) fuel k a g env s B ltac:(lia) Hoa Hb ltac:(unfold xcode; fold la; lia) Hca' ltac:(unfold xcode; fold la; lia) Hip Hcb Hops HG) as Ha.
+    unfold xcode in Ha. fold la in Ha.
+    assert (Eev : eval (S fuel) env (if p then EOr ea eb else EAnd ea eb) s =
+                  match eval fuel env ea s with
+                  | EVal (RBool b) s1 =>
+                    if (if p then b else negb b) then EVal (RBool b) s1
+                    else match eval fuel env eb s1 with
+                         | EVal (RBool vb) s2 => EVal (RBool vb) s2
+                         | EVal _ s2 | ENoVal s2 => EFail (FType 6) s2 | r => r end
+                  | EVal _ s1 | ENoVal s1 => EFail (FType 6) s1 | r => r end).
+    { destruct p; [rewrite eval_EOr|rewrite eval_EAnd]; destruct (eval fuel env ea s) as [[?|[|]|?| |? ? ?] s1|s1|f s1|]; reflexivity. }
+    rewrite Eev. clear Eev.
+    destruct (eval fuel env ea s) as [va s1|s1|f s1|] eqn:Eea; cbn [rhs_res] in Ha |- *.
+    2:{ exfalso. exact (operand_noval B ea Hoa Hca _ _ _ _ Eea). }
+    2:{ exact Ha. }
+    2:{ exact Logic.I. }
+    destruct Ha as (Hfoa & a1 & g1 & R1 & Hip1 & Hops1 & HG1 & Hf1 & Ha1 & Hss1 & Hlk1 & Hrk1).
+    set (i1 := mkI OP_STORE_SKIP [reg d; if p then s_one else s_zero; sN (lb + 3)]) in *.
+    pose proof (dec_store_skip (reg d) p (lb + 3) Hsk) as Hd1.
+    pose proof (exec_store_skip (reg d) p (Z.of_nat (lb + 3)) a1 (trc name a1 g1 i1) (inj va) Hops1) as He1.
+    assert (Hnb : forall vv, inj va = vv -> (forall b, vv <> VBool b) -> exec_d (DStoreSkip (reg d) p (Z.of_nat (lb + 3))) a1 (trc name a1 g1 i1) = SFail E_not_bool).
+    { intros vv <- Hv. rewrite He1. destruct (inj va); try reflexivity. exfalso. exact (Hv b eq_refl). }
+    assert (Hfail6 : (forall b, inj va <> VBool b) ->
+              fail_post (FType 6) (exists e0 g', xfail prog name code a g e0 g' /\ err_rel_s (FType 6) e0 /\ out g' = rout s1)).
+    { intros Hv. apply fail_post_intro. exists E_not_bool, (trc name a1 g1 i1). split; [|split; [cbn; auto|exact (Rg_out _ _ _ HG1)]].
+      eapply xrun_fail; [exact R1|]. eapply xstep_fail; [exact Hip1|exact Hi1|exact Hd1|exact (Hnb _ eq_refl Hv)]. }
+    destruct va as [z|b|t| |p0 bd ev]; cbn [rhs_res]; try (apply Hfail6; intros b0; discriminate).
+    cbn [inj] in He1.
+    destruct (if p then b else negb b) eqn:Epb.
+    { (* the left operand decides: jump over the right operand *)
+      cbn [rhs_res]. split; [exact Logic.I|].
+      exists (set_ip a1 (k + (la + (1 + (lb + 2))))), (trc name a1 g1 i1). split; [|split; [reflexivity|split; [exact Hops1|]]].
+      - eapply xrun_trans; [exact R1|].
+        eapply (xstep_goto prog name code a1 g1 i1 _ (k + la) _ a1); [exact Hip1|exact Hi1|exact Hd1|exact He1|].
+        rewrite Hip1. rewrite goto_fwd by lia. f_equal. lia.
+      - split; [apply Rg_trc; exact HG1|]. split; [exact Hf1|]. split; [destruct Ha1 as (A1 & A2 & A3); repeat split; assumption|].
+        split; [exact Hss1|]. split; [exact Hlk1|]. eapply regkeep_mono; [|exact Hrk1]. lia. }
+    (* the left operand does not decide: park it, evaluate the right operand *)
+    destruct (park_skip pins env s1 a1 g1 (k + la) d p (lb + 3) b Hi1 Hsk Epb Hip1 Hops1 HG1 Hsd) as (g2 & R2 & HG2 & Ht2 & Hlk2 & Hrv2 & Ho2 & Hoth2).
+    set (a2 := upd a1 (S (k + la)) []) in *.
+    pose proof (IHb pins (S d) fuel (S (k + la)) a2 g2 env s1 B ltac:(lia) Hob Hb ltac:(unfold xcode; fold lb; lia)
+                  ltac:(atpos Hcb2) ltac:(unfold xcode; fold lb; lia) eq_refl
+                  ltac:(cbn [a2 upd set_ip set_ops a_cb]; rewrite (proj2 (proj2 Ha1)); exact Hcb) eq_refl HG2) as Hbr.
+    unfold xcode in Hbr. fold lb in Hbr.
+    destruct (eval fuel env eb s1) as [vb s2|s2|f s2|] eqn:Eeb; cbn [rhs_res] in Hbr |- *.
+    2:{ exfalso. exact (operand_noval B eb Hob Hcb' _ _ _ _ Eeb). }
+    2:{ eapply fail_post_map; [|exact Hbr]. intros (e0 & g' & Hf & Hr). exists e0, g'.
+        split; [eapply xrun_fail; [exact R1|eapply xrun_fail; [exact R2|exact Hf]]|exact Hr]. }
+    2:{ exact Logic.I. }
+    destruct Hbr as (Hfob & a3 & g3 & R3 & Hip3 & Hops3 & HG3 & Hf3 & Ha3 & Hss3 & Hlk3 & Hrk3).
+    assert (Hrv3 : rv g3 d (VBool b)) by (apply Hrk3; [lia|exact Hsd|exact Hrv2]).
+    pose proof (unpark a3 g3 (S (k + la) + lb) d (VBool b) ltac:(atpos Hi2) Hip3 Hrv3) as R4.
+    rewrite Hops3 in R4. cbn [app] in R4.
+    set (a4 := upd a3 (S (S (k + la) + lb)) [inj vb; VBool b]) in *.
+    set (g4 := trc name a3 g3 (mkI OP_LOAD_FAST [reg d])) in *.
+    set (i3 := mkI OP_BIN_OP [if p then op_or else op_and]) in *.
+    pose proof (exec_bin_op (if p then op_or else op_and) a4 (trc name a4 g4 i3) (inj vb) (VBool b) eq_refl) as He.
+    assert (R04 : xrun prog name code a g a4 g4).
+    { eapply xrun_trans; [exact R1|]. eapply xrun_trans; [exact R2|]. eapply xrun_trans; [exact R3|exact R4]. }
+    assert (Hi3' : nth_error code (a_ip a4) = Some i3).
+    { cbn [a4 upd set_ip a_ip]. atpos Hi3. }
+    assert (Hbsem : forall vv, inj vb = vv -> (forall b2, vv <> VBool b2) -> exists e0, bin_op_sem (if p then op_or else op_and) vv (VBool b) = OE e0 /\ err_rel (FType 6) e0).
+    { intros vv <- Hv. destruct p; destruct vb as [?|b2|?| |? ? ?]; cbn; try (eexists; split; [reflexivity|cbn; auto]); exfalso; exact (Hv b2 eq_refl). }
+    assert (Hfail6b : (forall b2, inj vb <> VBool b2) ->
+              fail_post (FType 6) (exists e0 g', xfail prog name code a g e0 g' /\ err_rel_s (FType 6) e0 /\ out g' = rout s2)).
+    { intros Hv. destruct (Hbsem _ eq_refl Hv) as (e0 & Hbo & Hrel). rewrite Hbo in He.
+      apply fail_post_intro. exists e0, (trc name a4 g4 i3). split; [|split; [now apply err_rel_s_of|exact (Rg_out _ _ _ HG3)]].
+      eapply xrun_fail; [exact R04|]. eapply xstep_fail; [reflexivity|exact Hi3'|apply dec_bin_op|exact He]. }
+    destruct vb as [z|b2|t| |p0 bd ev]; cbn [rhs_res]; try (apply Hfail6b; intros b0; discriminate).
+    cbn [inj] in He.
+    assert (Hov : bin_op_sem (if p then op_or else op_and) (VBool b2) (VBool b) = OV (VBool b2)).
+    { destruct p, b, b2; try discriminate Epb; reflexivity. }
+    rewrite Hov in He.
+    split; [exact Logic.I|].
+    exists (upd a4 (S (a_ip a4)) [VBool b2]), (trc name a4 g4 i3). split; [|split; [|split; [reflexivity|]]].
+    - eapply xrun_trans; [exact R04|].
+      eapply (xstep_next prog name code a4 g4 i3 _ (a_ip a4) (set_ops a4 [VBool b2])); [reflexivity|exact Hi3'|apply dec_bin_op|exact He].
+    - cbn [a4 upd set_ip a_ip]. lia.
+    - split; [apply Rg_trc; apply Rg_trc; exact HG3|].
+      split; [change (frames (trc name a4 g4 i3)) with (frames g3); rewrite Hf3, Ht2; exact Hf1|].
+      split; [|split; [|split]].
+      + apply act_same_upd. eapply act_same_trans; [exact Ha1|]. eapply act_same_trans; [|exact Ha3]. apply act_same_upd. apply act_same_refl.
+      + cbn [a4 upd set_ip set_ops a_ss]. rewrite Hss3. cbn [a2 upd set_ip set_ops a_ss]. exact Hss1.
+      + change (frames (trc name a4 g4 i3)) with (frames g3). eapply lkeepA_trans; [exact Hlk1|]. eapply lkeepA_trans; [exact Hlk2|exact Hlk3].
+      + intros r0 v0 Hr Hs0 Hv. apply (rv_same g3); [reflexivity|auto|]. apply Hrk3; [lia|exact Hs0|].
+        apply Hoth2; [lia|exact Hs0|]. apply Hrk1; [lia|exact Hs0|exact Hv].
+  Qed.
+
+  Theorem rhs_run : forall e, rhs_spec e.
+  Proof.
+    apply (expr_ind' rhs_spec (fun _ => True)); try (intros; exact Logic.I); try (intros; pure_only).
+    - (* binary operators *)
+      intros o ea eb IHa IHb pins d fuel k a g env s B Hfu Hok Hb Hd Hc Hend Hip Hcb Hops HG.
+      unfold ok_rhs in Hok. rewrite ok_cexpr_eq in Hok. apply Bool.orb_true_iff in Hok as [Hoe|Hoc].
+      { destruct (ok_expr_parts _ _ Hoe) as (Hp & _ & _). rewrite (xcode_pure d _ Hp) in *.
+        exact (rhs_pure _ pins d fuel k a g env s B Hoe Hb Hd Hc Hend Hip Hops HG). }
+      apply Bool.andb_true_iff in Hoc as [Hoa Hob].
+      destruct fuel as [|fuel]; [exact Logic.I|]. rewrite eval_EBin.
+      unfold xcode in *. cbn [ccode] in *. rewrite !app_length in *. cbn [length] in *.
+      set (la := length (ccode (S d) ea)) in *. set (lb := length (ccode (S d) eb)) in *.
+      apply code_at_app in Hc as [Hca Hc]. apply code_at_cons in Hc as [Hi1 Hc].
+      apply code_at_app in Hc as [Hcb2 Hc]. apply code_at_cons in Hc as [Hi2 Hc]. apply code_at_cons in Hc as [Hi3 Hc].
+      apply code_at_cons in Hc as [Hi4 _]. fold la in Hi1, Hcb2, Hi2, Hi3, Hi4. fold lb in Hi2, Hi3, Hi4.
+      assert (Hsd : small d) by (eapply small_le; [|exact Hsmall]; lia).
+      pose proof (IHa pins (S d) fuel k a g env s B ltac:(lia) Hoa Hb ltac:(unfold xcode; fold la; lia) Hca ltac:(unfold xcode; fold la; lia) Hip Hcb Hops HG) as Ha.
+      unfold xcode in Ha. fold la in Ha.
+      destruct (eval fuel env ea s) as [va s1|s1|f s1|]; cbn [rhs_res] in Ha |- *; [|exact Logic.I|exact Ha|exact Logic.I].
+      destruct Ha as (Hfoa & a1 & g1 & R1 & Hip1 & Hops1 & HG1 & Hf1 & Ha1 & Hss1 & Hlk1 & Hrk1).
+      destruct (park pins env s1 a1 g1 (k + la) d (inj va) Hi1 Hip1 Hops1 HG1 Hsd) as (g2 & R2 & HG2 & Ht2 & Hlk2 & Hrv2 & Ho2 & Hoth2).
+      set (a2 := upd a1 (S (k + la)) []) in *.
+      pose proof (IHb pins (S d) fuel (S (k + la)) a2 g2 env s1 B ltac:(lia) Hob Hb ltac:(unfold xcode; fold lb; lia)
+                    ltac:(atpos Hcb2) ltac:(unfold xcode; fold lb; lia) eq_refl
+                    ltac:(cbn [a2 upd set_ip set_ops a_cb]; rewrite (proj2 (proj2 Ha1)); exact Hcb) eq_refl HG2) as Hbr.
+      unfold xcode in Hbr. fold lb in Hbr.
+      destruct (eval fuel env eb s1) as [vb s2|s2|f s2|]; cbn [rhs_res] in Hbr |- *; [|exact Logic.I| |exact Logic.I].
+      2:{ eapply fail_post_map; [|exact Hbr]. intros (e0 & g' & Hf & Hr). exists e0, g'.
+          split; [eapply xrun_fail; [exact R1|eapply xrun_fail; [exact R2|exact Hf]]|exact Hr]. }
+      destruct Hbr as (Hfob & a3 & g3 & R3 & Hip3 & Hops3 & HG3 & Hf3 & Ha3 & Hss3 & Hlk3 & Hrk3).
+      assert (Hrv3 : rv g3 d (inj va)) by (apply Hrk3; [lia|exact Hsd|exact Hrv2]).
+      pose proof (unpark a3 g3 (S (k + la) + lb) d (inj va) ltac:(atpos Hi2) Hip3 Hrv3) as R4.
+      rewrite Hops3 in R4. cbn [app] in R4.
+      set (a4 := upd a3 (S (S (k + la) + lb)) [inj vb; inj va]) in *.
+      set (g4 := trc name a3 g3 (mkI OP_LOAD_FAST [reg d])) in *.
+      set (a5 := upd a4 (S (S (S (k + la) + lb))) [inj va; inj vb]).
+      set (g5 := trc name a4 g4 (mkI OP_FAST_REV2 [])).
+      assert (R5 : xrun prog name code a4 g4 a5 g5).
+      { eapply (xstep_next prog name code a4 g4 _ _ (a_ip a4) (set_ops a4 [inj va; inj vb])); [reflexivity| |apply dec_rev2|].
+        - cbn [a4 upd set_ip a_ip]. atpos Hi3.
+        - exact (exec_rev2 a4 g5 (inj vb) (inj va) eq_refl). }
+      assert (R05 : xrun prog name code a g a5 g5).
+      { eapply xrun_trans; [exact R1|]. eapply xrun_trans; [exact R2|]. eapply xrun_trans; [exact R3|]. eapply xrun_trans; [exact R4|exact R5]. }
+      pose proof (binop_run o va vb s2 a5 g5 (a_ip a5)
+                    ltac:(cbn [a5 a4 upd set_ip a_ip]; atpos Hi4)
+                    eq_refl eq_refl) as Hop.
+      destruct (binop_sem o va vb s2) as [v s3|s3|f s3|]; cbn [rhs_res]; [|contradiction| |contradiction].
+      + destruct Hop as (-> & Hfov & Rop). split; [exact Hfov|].
+        eexists. eexists. split; [eapply xrun_trans; [exact R05|exact Rop]|]. split; [cbn [a5 a4 upd set_ip a_ip]; lia|]. split; [reflexivity|].
+        split; [apply Rg_trc; apply Rg_trc; apply Rg_trc; exact HG3|].
+        split; [change (frames (trc name a5 g5 (op_instr o))) with (frames g3); rewrite Hf3, Ht2; exact Hf1|].
+        split; [|split; [|split]].
+        * apply act_same_upd. apply act_same_upd. eapply act_same_trans; [exact Ha1|]. eapply act_same_trans; [|exact Ha3]. apply act_same_upd. apply act_same_refl.
+        * cbn [a5 a4 upd set_ip set_ops a_ss]. rewrite Hss3. cbn [a2 upd set_ip set_ops a_ss]. exact Hss1.
+        * change (frames (trc name a5 g5 (op_instr o))) with (frames g3). eapply lkeepA_trans; [exact Hlk1|]. eapply lkeepA_trans; [exact Hlk2|exact Hlk3].
+        * intros r0 v0 Hr Hs0 Hv. apply (rv_same g3); [reflexivity|auto|]. apply Hrk3; [lia|exact Hs0|].
+          apply Hoth2; [lia|exact Hs0|]. apply Hrk1; [lia|exact Hs0|exact Hv].
+      + destruct Hop as (-> & e0 & Hf & Hrel). apply fail_post_intro. exists e0, (trc name a5 g5 (op_instr o)).
+        split; [eapply xrun_fail; [exact R05|exact Hf]|]. split; [now apply err_rel_s_of|exact (Rg_out _ _ _ HG3)].
+    - intros ea eb IHa IHb. exact (rhs_logic false ea eb IHa IHb).
+    - intros ea eb IHa IHb. exact (rhs_logic true ea eb IHa IHb).
+    - (* not *)
+      intros ea IHa pins d fuel k a g env s B Hfu Hok Hb Hd Hc Hend Hip Hcb Hops HG.
+      unfold ok_rhs in Hok. rewrite ok_cexpr_eq in Hok. apply Bool.orb_true_iff in Hok as [Hoe|Hoc].
+      { destruct (ok_expr_parts _ _ Hoe) as (Hp & _ & _). rewrite (xcode_pure d _ Hp) in *.
+        exact (rhs_pure _ pins d fuel k a g env s B Hoe Hb Hd Hc Hend Hip Hops HG). }
+      apply Bool.andb_true_iff in Hoc as [Hca Hoa]. apply Bool.negb_true_iff in Hca.
+      destruct fuel as [|fuel]; [exact Logic.I|]. rewrite eval_ENot.
+      unfold xcode in *. cbn [ccode] in *. rewrite !app_length in *. cbn [length] in *.
+      set (la := length (ccode (S d) ea)) in *.
+      apply code_at_app in Hc as [Hca' Hc]. apply code_at_cons in Hc as [Hi1 _]. fold la in Hi1.
+      pose proof (IHa pins (S d) fuel k a g env s B ltac:(lia) Hoa Hb ltac:(unfold xcode; fold la; lia) Hca' ltac:(unfold xcode; fold la; lia) Hip Hcb Hops HG) as Ha.
+      unfold xcode in Ha. fold la in Ha.
+      destruct (eval fuel env ea s) as [va s1|s1|f s1|] eqn:Eea; cbn [rhs_res] in Ha |- *.
+      2:{ exfalso. exact (operand_noval B ea Hoa Hca _ _ _ _ Eea). }
+      2:{ exact Ha. }
+      2:{ exact Logic.I. }
+      destruct Ha as (Hfoa & a1 & g1 & R1 & Hip1 & Hops1 & HG1 & Hf1 & Ha1 & Hss1 & Hlk1 & Hrk1).
+      pose proof (exec_not a1 (trc name a1 g1 (mkI OP_NOT [])) (inj va) Hops1) as He.
+      assert (Hfail : (forall b, inj va <> VBool b) ->
+                fail_post (FType 7) (exists e0 g', xfail prog name code a g e0 g' /\ err_rel_s (FType 7) e0 /\ out g' = rout s1)).
+      { intros Hv. apply fail_post_intro. exists E_not_bool, (trc name a1 g1 (mkI OP_NOT [])). split; [|split; [cbn; auto|exact (Rg_out _ _ _ HG1)]].
+        eapply xrun_fail; [exact R1|]. eapply xstep_fail; [exact Hip1|exact Hi1|apply dec_not|].
+        rewrite He. destruct (inj va); try reflexivity. exfalso. exact (Hv b eq_refl). }
+      destruct va as [z|b|t| |p0 bd ev]; cbn [rhs_res]; try (apply Hfail; intros b0; discriminate).
+      cbn [inj] in He. split; [exact Logic.I|].
+      exists (upd a1 (S (a_ip a1)) [VBool (negb b)]), (trc name a1 g1 (mkI OP_NOT [])). split; [|split; [cbn [upd set_ip a_ip]; rewrite Hip1; lia|split; [reflexivity|]]].
+      + eapply xrun_trans; [exact R1|].
+        eapply (xstep_next prog name code a1 g1 _ _ (k + la) (set_ops a1 [VBool (negb b)])); [exact Hip1|exact Hi1|apply dec_not|exact He].
+      + split; [apply Rg_trc; exact HG1|]. split; [exact Hf1|]. split; [destruct Ha1 as (A1 & A2 & A3); repeat split; assumption|].
+        split; [exact Hss1|]. split; [exact Hlk1|]. eapply regkeep_mono; [|exact Hrk1]. lia.
+    - (* unary minus *)
+      intros ea IHa pins d fuel k a g env s B Hfu Hok Hb Hd Hc Hend Hip Hcb Hops HG.
+      unfold ok_rhs in Hok. rewrite ok_cexpr_eq in Hok. apply Bool.orb_true_iff in Hok as [Hoe|Hoc].
+      { destruct (ok_expr_parts _ _ Hoe) as (Hp & _ & _). rewrite (xcode_pure d _ Hp) in *.
+        exact (rhs_pure _ pins d fuel k a g env s B Hoe Hb Hd Hc Hend Hip Hops HG). }
+      apply Bool.andb_true_iff in Hoc as [Hca Hoa]. apply Bool.negb_true_iff in Hca.
+      destruct fuel as [|fuel]; [exact Logic.I|]. rewrite eval_ENeg.
+      unfold xcode in *. cbn [ccode] in *. rewrite !app_length in *. cbn [length] in *.
+      set (la := length (ccode (S d) ea)) in *.
+      apply code_at_app in Hc as [Hca' Hc]. apply code_at_cons in Hc as [Hi1 _]. fold la in Hi1.
+      pose proof (IHa pins (S d) fuel k a g env s B ltac:(lia) Hoa Hb ltac:(unfold xcode; fold la; lia) Hca' ltac:(unfold xcode; fold la; lia) Hip Hcb Hops HG) as Ha.
+      unfold xcode in Ha. fold la in Ha.
+      destruct (eval fuel env ea s) as [va s1|s1|f s1|] eqn:Eea; cbn [rhs_res] in Ha |- *.
+      2:{ exfalso. exact (operand_noval B ea Hoa Hca _ _ _ _ Eea). }
+      2:{ exact Ha. }
+      2:{ exact Logic.I. }
+      destruct Ha as (Hfoa & a1 & g1 & R1 & Hip1 & Hops1 & HG1 & Hf1 & Ha1 & Hss1 & Hlk1 & Hrk1).
+      pose proof (exec_neg a1 (trc name a1 g1 (mkI OP_NEG [])) (inj va) Hops1) as He.
+      assert (Hfail : forall fl e0, exec_d DNeg a1 (trc name a1 g1 (mkI OP_NEG [])) = SFail e0 -> err_rel fl e0 ->
+                fail_post fl (exists e1 g', xfail prog name code a g e1 g' /\ err_rel_s fl e1 /\ out g' = rout s1)).
+      { intros fl e0 Hx Hrel. apply fail_post_intro. exists e0, (trc name a1 g1 (mkI OP_NEG [])). split; [|split; [now apply err_rel_s_of|exact (Rg_out _ _ _ HG1)]].
+        eapply xrun_fail; [exact R1|]. eapply xstep_fail; [exact Hip1|exact Hi1|apply dec_neg|exact Hx]. }
+      destruct va as [z|b|t| |p0 bd ev]; cbn [inj] in He; cbn [rhs_res]; try (eapply Hfail; [exact He|cbn; auto]).
+      unfold arith_res. destruct (i32_ok (- z)); cbn [rhs_res].
+      + split; [exact Logic.I|].
+        exists (upd a1 (S (a_ip a1)) [VInt (- z)]), (trc name a1 g1 (mkI OP_NEG [])). split; [|split; [cbn [upd set_ip a_ip]; rewrite Hip1; lia|split; [reflexivity|]]].
+        * eapply xrun_trans; [exact R1|].
+          eapply (xstep_next prog name code a1 g1 _ _ (k + la) (set_ops a1 [VInt (- z)])); [exact Hip1|exact Hi1|apply dec_neg|exact He].
+        * split; [apply Rg_trc; exact HG1|]. split; [exact Hf1|]. split; [destruct Ha1 as (A1 & A2 & A3); repeat split; assumption|].
+          split; [exact Hss1|]. split; [exact Hlk1|]. eapply regkeep_mono; [|exact Hrk1]. lia.
+      + eapply Hfail; [exact He|cbn; auto].
+    - (* f(args) *)
+      intros fe args _ IHargs pins d fuel k a g env s B Hfu Hok Hb Hd Hc Hend Hip Hcb Hops HG. subst k. set (k := a_ip a) in *.
+      unfold ok_rhs in Hok. rewrite ok_cexpr_eq in Hok. apply Bool.orb_true_iff in Hok as [Hoe|Hoc].
+      { apply ok_expr_parts in Hoe as (Hp & _ & _). discriminate. }
+      destruct fe as [| | | |f| | | | | | | | | |]; try discriminate.
+      destruct (assoc f FT) as [[ps body]|] eqn:Eft; [|discriminate].
       apply Bool.andb_true_iff in Hoc as [Har Hoa]. apply Nat.eqb_eq in Har.
-      destruct (HSPself ps ESP) as (body & cenv & Eself).
-      destruct fuel as [|fuel]; [exact Logic.I|]. rewrite eval_ESelf.
-      cbn [xcode] in *. rewrite !app_length in *. cbn [length] in *.
-      set (la := length (argcode (S c) args)) in *. set (na := length (argloads (S c) args)) in *.
-      apply code_at_app in Hc as [Hca Hc]. apply code_at_app in Hc as [Hcl Hc]. fold la in Hcl, Hc.
-      apply code_at_cons in Hc as [Hi4 _].
-      assert (Hna : na = length args) by (unfold na; clear; generalize (S c); induction args; intros n; cbn [argloads length]; [reflexivity|now rewrite IHargs]).
-      assert (Hcode : length args <= length code).
-      { assert (length args <= la). { unfold la. clear. generalize (S c). induction args as [|e l IH]; intros n; cbn [argcode length]; [lia|].
-          rewrite !app_length. cbn [length]. specialize (IH (S n)). lia. } lia. }
-      assert (Hsmc : small (S c + length args)) by (eapply small_le; [|exact Hsmall]; lia).
-      pose proof (args_run args (S c) k pins a g env s B [] fuel Hoa Hb Hsmc ltac:(lia)
-                    Hca ltac:(fold la; lia) eq_refl Hops HG) as Hargs.
+      destruct fuel as [|fuel]; [exact Logic.I|]. rewrite eval_ECall.
+      destruct fuel as [|fuel]; [exact Logic.I|].
+      pose proof (assoc_in_fnames FT f _ Eft) as Hin.
+      destruct (assoc f fcells) as [[[[c0 c0'] cenv] cbf]|] eqn:Efc; [|exfalso; exact (proj1 (Hfck f) Hin Efc)].
+      assert (Hl0 : 0 < length (locals env)) by (pose proof (Rg_ne _ _ _ HG); destruct (locals env); [congruence|cbn; lia]).
+      destruct (Rg_flook _ _ _ HG f c0 c0' cenv cbf Efc 0 Hl0) as [Hls Hlv]. cbn [skipn] in Hls, Hlv.
+      destruct (Rg_fpin _ _ _ HG) as [Hvp Hsp].
+      destruct (Hsp c0 (RClos ps body cenv)) as [Hsv _]; [exact (Hgps f c0 c0' cenv cbf ps body Efc Eft)|].
+      destruct (Hvp c0' (VFun (floc f) cbf)) as [Hvv _]; [exact (Hgpv f c0 c0' cenv cbf Efc)|].
+      rewrite eval_EVar, Hls. unfold sget at 1. rewrite Hsv.
+      unfold xcode in *. rewrite ccode_ECall in *. cbn [app] in Hc. rewrite !app_length in *. cbn [length app] in *.
+      set (la := length (argcode (S (S d)) args)) in *. set (na := length (argloads (S (S d)) args)) in *.
+      apply code_at_cons in Hc as [Hi1 Hc]. apply code_at_cons in Hc as [Hi2 Hc].
+      apply code_at_app in Hc as [Hca Hc]. apply code_at_app in Hc as [Hcl Hc]. fold la in Hcl, Hc. fold na in Hc.
+      apply code_at_cons in Hc as [Hi3 Hc]. apply code_at_cons in Hc as [Hi4 _].
+      assert (Hna : na = length args) by (unfold na; clear; generalize (S (S d)); induction args; intros n; cbn [argloads length]; [reflexivity|now rewrite IHargs]).
+      assert (Hsd1 : small (S d)) by (eapply small_le; [|exact Hsmall]; lia).
+      (* load f *)
+      set (i1 := mkI OP_LOAD [f]) in *.
+      set (a1 := upd a (S k) [VFun (floc f) cbf]).
+      set (g1 := trc name a g i1).
+      assert (R1 : xrun prog name code a g a1 g1).
+      { eapply (xstep_next prog name code a g i1 _ k (set_ops a [VFun (floc f) cbf])); [reflexivity|exact Hi1|apply dec_load|].
+        pose proof (exec_load f a g1 c0' (VFun (floc f) cbf) ltac:(rewrite (lookup_var_fs a g1 f Hcb); exact Hlv) Hvv) as Hx.
+        rewrite Hops in Hx. exact Hx. }
+      (* store_fast #(d+1) *)
+      destruct (park pins env s a1 g1 (S k) (S d) (VFun (floc f) cbf) Hi2 eq_refl eq_refl ltac:(apply Rg_trc; exact HG) Hsd1)
+        as (g2 & R2 & HG2 & Ht2 & Hlk2 & Hrf2 & Ho2 & Hoth2).
+      set (a2 := upd a1 (S (S k)) []) in *.
+      (* the arguments *)
+      pose proof (args_run args IHargs (S (S d)) (S (S k)) pins a2 g2 env s B [] (S fuel) ltac:(lia) Hoa Hb ltac:(fold la; lia)
+                    Hca ltac:(fold la; lia) eq_refl Hcb eq_refl HG2) as Hargs.
       fold la in Hargs.
-      destruct (evals_ fuel env args s []) as [[vs s1]|r]; cbn [args_res] in Hargs.
+      destruct (evals_ (S fuel) env args s []) as [[vs s1]|r]; cbn [args_res] in Hargs.
       2:{ destruct r as [? ?|?|fl s1|]; try contradiction; cbn [rhs_res]; [|exact Logic.I].
-          destruct Hargs as (-> & e0 & g' & Hf & Hr & Ho). apply fail_post_intro. exists e0, g'.
-          split; [exact Hf|]. split; [now apply err_rel_s_of|exact Ho]. }
-      destruct Hargs as (-> & vs' & Evs & Hlv' & Hfos & g3 & R3 & HG3 & Ht3 & Hlow3 & Hreg3 & Hlk3).
+          eapply fail_post_map; [|exact Hargs]. intros (e0 & g' & Hf & Hr). exists e0, g'.
+          split; [eapply xrun_fail; [exact R1|eapply xrun_fail; [exact R2|exact Hf]]|exact Hr]. }
+      destruct Hargs as (vs' & Evs & Hlv' & Hfos & a3 & g3 & R3 & Hip3 & Hops3 & HG3 & Ht3 & Ha3 & Hss3 & Hrk3 & Hreg3 & Hlk3).
       cbn [rev app] in Evs. subst vs'.
-      rewrite (Rg_cur _ _ _ HG), Eself.
-      set (a3 := upd a (k + la) []) in *.
-      destruct (loads_run args (map inj vs) (S c) (k + la) a3 g3 ltac:(rewrite map_length; congruence)) as (g4 & R4 & Hf4 & Hc4 & HR4).
+      (* reload the arguments, then the callee *)
+      destruct (loads_run args (map inj vs) (S (S d)) (S (S k) + la) a3 g3 ltac:(rewrite map_length; congruence)) as (g4 & R4 & Hf4 & Hc4 & HR4).
       { intros j v Hj. rewrite nth_error_map in Hj. destruct (nth_error vs j) as [v0|] eqn:Ev; [|discriminate].
         inversion Hj; subst v. now apply Hreg3. }
       { exact Hcl. }
-      { reflexivity. }
-      cbn [a3 upd set_ops a_ops app] in R4. fold a3 in R4.
+      { exact Hip3. }
+      rewrite Hops3 in R4. cbn [app] in R4.
+      set (a4 := upd a3 (S (S k) + la + length args) (map inj vs)) in *.
+      assert (Hrf4 : rv g4 (S d) (VFun (floc f) cbf)).
+      { apply (rv_same g3 g4); [exact Hf4|intros cj w Hw; unfold cell_get in *; now rewrite Hc4|].
+        apply Hrk3; [lia|exact Hsd1|exact Hrf2]. }
+      pose proof (unpark a4 g4 (S (S k) + la + length args) (S d) (VFun (floc f) cbf)
+                    ltac:(atpos Hi3) eq_refl Hrf4) as R5.
+      cbn [a4 upd set_ops a_ops] in R5. fold a4 in R5.
+      set (i3 := mkI OP_LOAD_FAST [reg (S d)]) in *.
+      set (g5 := trc name a4 g4 i3) in *.
+      set (a5 := upd a4 (S (S (S k) + la + length args)) (map inj vs ++ [VFun (floc f) cbf])) in *.
+      assert (R05 : xrun prog name code a g a5 g5).
+      { eapply xrun_trans; [exact R1|]. eapply xrun_trans; [exact R2|]. eapply xrun_trans; [exact R3|]. eapply xrun_trans; [exact R4|exact R5]. }
+      assert (HG5 : Rg pins env s1 g5) by (apply Rg_trc; apply HR4; exact HG3).
+      set (i4 := mkI OP_CALL []) in *.
+      set (g5t := trc name a5 g5 i4).
+      assert (HG5t : Rg pins env s1 g5t) by (apply Rg_trc; exact HG5).
+      assert (Hi4' : nth_error code (a_ip a5) = Some i4).
+      { cbn [a5 upd set_ip a_ip]. atpos Hi4. }
+      pose proof (exec_call a5 g5t (map inj vs) (floc f) cbf eq_refl) as Hx.
+      assert (Hfin : S (a_ip a5) = k + S (S (la + (na + 2)))) by (cbn [a5 upd set_ip a_ip]; lia).
+      assert (Htl5 : tl (frames g5t) = tl (frames g)).
+      { change (frames g5t) with (frames g4). rewrite Hf4, Ht3, Ht2. reflexivity. }
+      assert (Hlk5 : lkeepA (frames g) (frames g5t)).
+      { change (frames g5t) with (frames g4). rewrite Hf4. eapply lkeepA_trans; [|exact Hlk3]. exact Hlk2. }
+      assert (Hrk5 : regkeep d g g5t).
+      { intros r0 v0 Hr Hs0 Hv. apply (rv_same g4); [reflexivity|auto|]. apply (rv_same g3 g4); [exact Hf4|intros cj w Hw; unfold cell_get in *; now rewrite Hc4|].
+        apply Hrk3; [lia|exact Hs0|]. apply Hoth2; [lia|exact Hs0|]. apply (rv_same g); [reflexivity|auto|exact Hv]. }
+      assert (Hact5 : act_same a a5 /\ a_ss a5 = a_ss a).
+      { destruct Ha3 as (B1 & B2 & B3). cbn [a5 a4 upd set_ip set_ops a_fn a_args a_cb a_ss a2 a1] in *. rewrite Hss3.
+        repeat split; assumption. }
+      (* the callee *)
+      pose proof (Hcall (S fuel) ltac:(lia) f ps body c0 c0' cenv cbf Eft Efc vs s1 g5t Hfos ltac:(congruence)
+                    (Rg_out _ _ _ HG5t) (Rg_nd _ _ _ HG5t) (Rg_fvals _ _ _ _ HG5t)) as Hcal.
+      destruct (call_clos_ (S fuel) (RClos ps body cenv) vs s1) as [v s2|s2|fl s2|]; cbn [rhs_res]; [| | |exact Logic.I].
+      + destruct Hcal as (Hfov & fuel' & g6 & Hrun & Hkeep). split; [exact Hfov|].
+        exists (next_act (set_ops a5 []) (Some (inj v))), g6. split; [|split; [|split; [|split; [|split; [|split; [|split; [|split]]]]]]].
+        * eapply xrun_trans; [exact R05|]. eapply xr_call; [exact Hi4'|apply dec_call|exact Hx|exact Hrun|apply xr_refl].
+        * unfold next_act. cbn [set_ip a_ip set_ops]. exact Hfin.
+        * reflexivity.
+        * eapply Rg_val_keep; [exact HG5t|exact Hkeep].
+        * rewrite (proj1 Hkeep). exact Htl5.
+        * destruct Hact5 as [(A1 & A2 & A3) _]. repeat split; assumption.
+        * exact (proj2 Hact5).
+        * rewrite (proj1 Hkeep). exact Hlk5.
+        * eapply regkeep_trans; [exact Hrk5|]. apply regkeep_same; [exact (proj1 Hkeep)|exact (proj2 (proj2 (proj2 Hkeep)))].
+      + destruct Hcal as (fuel' & g6 & Hrun & Hkeep).
+        exists (next_act (set_ops a5 []) None), g6. split; [|split; [|split; [|split; [|split; [|split; [|split; [|split]]]]]]].
+        * eapply xrun_trans; [exact R05|]. eapply xr_call; [exact Hi4'|apply dec_call|exact Hx|exact Hrun|apply xr_refl].
+        * unfold next_act. cbn [set_ip a_ip set_ops]. exact Hfin.
+        * reflexivity.
+        * eapply Rg_val_keep; [exact HG5t|exact Hkeep].
+        * rewrite (proj1 Hkeep). exact Htl5.
+        * destruct Hact5 as [(A1 & A2 & A3) _]. repeat split; assumption.
+        * exact (proj2 Hact5).
+        * rewrite (proj1 Hkeep). exact Hlk5.
+        * eapply regkeep_trans; [exact Hrk5|]. apply regkeep_same; [exact (proj1 Hkeep)|exact (proj2 (proj2 (proj2 Hkeep)))].
+      + eapply fail_post_map; [|exact Hcal]. intros (fuel' & e0 & g6 & Hrun & Hr & Ho). exists e0, g6.
+        split; [|split; assumption]. exists a5, g5. split; [exact R05|]. right.
+        exists i4, (DCall None), (floc f), cbf, (map inj vs), (set_ops a5 []), g5t, fuel'. auto using dec_call.
+    - (* self(args) *)
+      intros args IHargs pins d fuel k a g env s B Hfu Hok Hb Hd Hc Hend Hip Hcb Hops HG. subst k. set (k := a_ip a) in *.
+      unfold ok_rhs in Hok. rewrite ok_cexpr_eq in Hok. apply Bool.orb_true_iff in Hok as [Hoe|Hoc].
+      { apply ok_expr_parts in Hoe as (Hp & _ & _). discriminate. }
+      revert Hoc. case_eq SP; [intros ps ESP Hoc|intros ESP Hoc; discriminate].
+      apply Bool.andb_true_iff in Hoc as [Har Hoa]. apply Nat.eqb_eq in Har. rewrite <- ESP in Hoa.
+      destruct (HSPself ps ESP) as (body & cenv & Eself).
+      destruct fuel as [|fuel]; [exact Logic.I|]. rewrite eval_ESelf.
+      unfold xcode in *. rewrite ccode_ESelf in *. rewrite !app_length in *. cbn [length] in *.
+      set (la := length (argcode (S d) args)) in *. set (na := length (argloads (S d) args)) in *.
+      apply code_at_app in Hc as [Hca Hc]. apply code_at_app in Hc as [Hcl Hc]. fold la in Hcl, Hc.
+      apply code_at_cons in Hc as [Hi4 _].
+      assert (Hna : na = length args) by (unfold na; clear; generalize (S d); induction args; intros n; cbn [argloads length]; [reflexivity|now rewrite IHargs]).
+      pose proof (args_run args IHargs (S d) k pins a g env s B [] fuel ltac:(lia) Hoa Hb ltac:(fold la; lia)
+                    Hca ltac:(fold la; lia) eq_refl Hcb Hops HG) as Hargs.
+      fold la in Hargs.
+      destruct (evals_ fuel env args s []) as [[vs s1]|r]; cbn [args_res] in Hargs.
+      2:{ destruct r as [? ?|?|fl s1|]; try contradiction; cbn [rhs_res]; [exact Hargs|exact Logic.I]. }
+      destruct Hargs as (vs' & Evs & Hlv' & Hfos & a3 & g3 & R3 & Hip3 & Hops3 & HG3 & Ht3 & Ha3 & Hss3 & Hrk3 & Hreg3 & Hlk3).
+      cbn [rev app] in Evs. subst vs'.
+      rewrite (Rg_cur _ _ _ HG), Eself.
+      destruct (loads_run args (map inj vs) (S d) (k + la) a3 g3 ltac:(rewrite map_length; congruence)) as (g4 & R4 & Hf4 & Hc4 & HR4).
+      { intros j v Hj. rewrite nth_error_map in Hj. destruct (nth_error vs j) as [v0|] eqn:Ev; [|discriminate].
+        inversion Hj; subst v. now apply Hreg3. }
+      { exact Hcl. }
+      { exact Hip3. }
+      rewrite Hops3 in R4. cbn [app] in R4.
       set (a4 := upd a3 (k + la + length args) (map inj vs)) in *.
       set (i4 := mkI OP_CALL_SELF []) in *.
       set (g4t := trc name a4 g4 i4).
-      assert (HG4t : Rg pins env s g4t) by (apply Rg_trc; apply HR4; exact HG3).
+      assert (HG4t : Rg pins env s1 g4t) by (apply Rg_trc; apply HR4; exact HG3).
       assert (Hi4' : nth_error code (a_ip a4) = Some i4).
-      { cbn [a4 upd set_ip a_ip]. replace (k + la + length args) with (k + la + na) by lia. exact Hi4. }
+      { cbn [a4 upd set_ip a_ip]. atpos Hi4. }
       assert (Hx : exec_d DCallSelf a4 g4t = SCall fnm cb (map inj vs) (set_ops a4 []) g4t).
-      { unfold exec_d. rewrite (Rg_cf _ _ _ HG4t). cbn [a4 a3 upd set_ip set_ops a_ops a_cb]. now rewrite Hcb. }
+      { unfold exec_d. rewrite (Rg_cf _ _ _ HG4t). cbn [a4 upd set_ip set_ops a_ops a_cb]. rewrite (proj2 (proj2 Ha3)). now rewrite Hcb. }
       assert (Hfin : S (a_ip a4) = k + (la + (na + 1))) by (cbn [a4 upd set_ip a_ip]; lia).
       assert (Htl4 : tl (frames g4t) = tl (frames g)).
       { change (frames g4t) with (frames g4). rewrite Hf4, Ht3. reflexivity. }
       assert (R4' : xrun prog name code a g a4 g4) by (eapply xrun_trans; [exact R3|exact R4]).
-      pose proof (Hself fuel ltac:(lia) ps body cenv Eself vs s g4t Hfos ltac:(congruence)
+      assert (Hrk4 : regkeep d g g4t).
+      { intros r0 v0 Hr Hs0 Hv. apply (rv_same g4); [reflexivity|auto|]. apply (rv_same g3 g4); [exact Hf4|intros cj w Hw; unfold cell_get in *; now rewrite Hc4|].
+        apply Hrk3; [lia|exact Hs0|exact Hv]. }
+      assert (Hact4 : act_same a a4 /\ a_ss a4 = a_ss a).
+      { destruct Ha3 as (B1 & B2 & B3). cbn [a4 upd set_ip set_ops a_fn a_args a_cb a_ss] in *. repeat split; assumption. }
+      pose proof (Hself fuel ltac:(lia) ps body cenv Eself vs s1 g4t Hfos ltac:(congruence)
                     (Rg_out _ _ _ HG4t) (Rg_nd _ _ _ HG4t) (Rg_fvals _ _ _ _ HG4t)) as Hcal.
-      destruct (call_clos_ fuel (RClos ps body cenv) vs s) as [v s1|s1|fl s1|]; cbn [rhs_res]; [| | |exact Logic.I].
-      - destruct Hcal as (Hfov & fuel' & g6 & Hrun & Hkeep). split; [exact Hfov|].
-        exists (next_act (set_ops a4 []) (Some (inj v))), g6. split; [|split; [|split; [|split; [|split; [|split]]]]].
-        + eapply xrun_trans; [exact R4'|]. eapply xr_call; [exact Hi4'|reflexivity|exact Hx|exact Hrun|apply xr_refl].
-        + unfold next_act. cbn [set_ip a_ip set_ops]. exact Hfin.
-        + reflexivity.
-        + eapply Rg_val_keep; [exact HG4t|exact Hkeep].
-        + rewrite (proj1 Hkeep). exact Htl4.
-        + repeat split.
-        + split; [reflexivity|]. rewrite (proj1 Hkeep). change (frames g4t) with (frames g4). rewrite Hf4. exact Hlk3.
-      - destruct Hcal as (fuel' & g6 & Hrun & Hkeep).
-        exists (next_act (set_ops a4 []) None), g6. split; [|split; [|split; [|split; [|split; [|split]]]]].
-        + eapply xrun_trans; [exact R4'|]. eapply xr_call; [exact Hi4'|reflexivity|exact Hx|exact Hrun|apply xr_refl].
-        + unfold next_act. cbn [set_ip a_ip set_ops]. exact Hfin.
-        + reflexivity.
-        + eapply Rg_val_keep; [exact HG4t|exact Hkeep].
-        + rewrite (proj1 Hkeep). exact Htl4.
-        + repeat split.
-        + split; [reflexivity|]. rewrite (proj1 Hkeep). change (frames g4t) with (frames g4). rewrite Hf4. exact Hlk3.
-      - eapply fail_post_map; [|exact Hcal]. intros (fuel' & e0 & g6 & Hrun & Hr & Ho). exists e0, g6.
+      destruct (call_clos_ fuel (RClos ps body cenv) vs s1) as [v s2|s2|fl s2|]; cbn [rhs_res]; [| | |exact Logic.I].
+      + destruct Hcal as (Hfov & fuel' & g6 & Hrun & Hkeep). split; [exact Hfov|].
+        exists (next_act (set_ops a4 []) (Some (inj v))), g6. split; [|split; [|split; [|split; [|split; [|split; [|split; [|split]]]]]]].
+        * eapply xrun_trans; [exact R4'|]. eapply xr_call; [exact Hi4'|reflexivity|exact Hx|exact Hrun|apply xr_refl].
+        * unfold next_act. cbn [set_ip a_ip set_ops]. exact Hfin.
+        * reflexivity.
+        * eapply Rg_val_keep; [exact HG4t|exact Hkeep].
+        * rewrite (proj1 Hkeep). exact Htl4.
+        * destruct Hact4 as [(A1 & A2 & A3) _]. repeat split; assumption.
+        * exact (proj2 Hact4).
+        * rewrite (proj1 Hkeep). change (frames g4t) with (frames g4). rewrite Hf4. exact Hlk3.
+        * eapply regkeep_trans; [exact Hrk4|]. apply regkeep_same; [exact (proj1 Hkeep)|exact (proj2 (proj2 (proj2 Hkeep)))].
+      + destruct Hcal as (fuel' & g6 & Hrun & Hkeep).
+        exists (next_act (set_ops a4 []) None), g6. split; [|split; [|split; [|split; [|split; [|split; [|split; [|split]]]]]]].
+        * eapply xrun_trans; [exact R4'|]. eapply xr_call; [exact Hi4'|reflexivity|exact Hx|exact Hrun|apply xr_refl].
+        * unfold next_act. cbn [set_ip a_ip set_ops]. exact Hfin.
+        * reflexivity.
+        * eapply Rg_val_keep; [exact HG4t|exact Hkeep].
+        * rewrite (proj1 Hkeep). exact Htl4.
+        * destruct Hact4 as [(A1 & A2 & A3) _]. repeat split; assumption.
+        * exact (proj2 Hact4).
+        * rewrite (proj1 Hkeep). change (frames g4t) with (frames g4). rewrite Hf4. exact Hlk3.
+        * eapply regkeep_trans; [exact Hrk4|]. apply regkeep_same; [exact (proj1 Hkeep)|exact (proj2 (proj2 (proj2 Hkeep)))].
+      + eapply fail_post_map; [|exact Hcal]. intros (fuel' & e0 & g6 & Hrun & Hr & Ho). exists e0, g6.
         split; [|split; assumption]. exists a4, g4. split; [exact R4'|]. right.
-        exists i4, DCallSelf, fnm, cb, (map inj vs), (set_ops a4 []), g4t, fuel'. auto. }
-    destruct fe as [| | | |f| | | | | | | | | |]; try discriminate.
-    cbn [ok_call] in Hoc. destruct (assoc f FT) as [[ps body]|] eqn:Eft; [|discriminate].
-    apply Bool.andb_true_iff in Hoc as [Har Hoa]. apply Nat.eqb_eq in Har.
-    destruct fuel as [|fuel]; [exact Logic.I|]. rewrite eval_ECall.
-    destruct fuel as [|fuel]; [exact Logic.I|].
-    pose proof (assoc_in_fnames FT f _ Eft) as Hin.
-    destruct (assoc f fcells) as [[[[c0 c0'] cenv] cbf]|] eqn:Efc; [|exfalso; exact (proj1 (Hfck f) Hin Efc)].
-    assert (Hl0 : 0 < length (locals env)) by (pose proof (Rg_ne _ _ _ HG); destruct (locals env); [congruence|cbn; lia]).
-    destruct (Rg_flook _ _ _ HG f c0 c0' cenv cbf Efc 0 Hl0) as [Hls Hlv]. cbn [skipn] in Hls, Hlv.
-    destruct (Rg_fpin _ _ _ HG) as [Hvp Hsp].
-    destruct (Hsp c0 (RClos ps body cenv)) as [Hsv _]; [exact (Hgps f c0 c0' cenv cbf ps body Efc Eft)|].
-    destruct (Hvp c0' (VFun (floc f) cbf)) as [Hvv _]; [exact (Hgpv f c0 c0' cenv cbf Efc)|].
-    rewrite eval_EVar, Hls. unfold sget at 1. rewrite Hsv.
-    (* code layout *)
-    cbn [xcode] in *. cbn [app] in Hc. rewrite !app_length in *. cbn [length app] in *.
-    set (la := length (argcode (S (S c)) args)) in *. set (na := length (argloads (S (S c)) args)) in *.
-    apply code_at_cons in Hc as [Hi1 Hc]. apply code_at_cons in Hc as [Hi2 Hc].
-    apply code_at_app in Hc as [Hca Hc]. apply code_at_app in Hc as [Hcl Hc]. fold la in Hcl, Hc. fold na in Hc.
-    apply code_at_cons in Hc as [Hi3 Hc]. apply code_at_cons in Hc as [Hi4 _].
-    assert (Hna : na = length args) by (unfold na; clear; generalize (S (S c)); induction args; intros n; cbn [argloads length]; [reflexivity|now rewrite IHargs]).
-    (* load f *)
-    set (i1 := mkI OP_LOAD [f]) in *.
-    set (a1 := upd a (S k) [VFun (floc f) cbf]).
-    set (g1 := trc name a g i1).
-    assert (R1 : xrun prog name code a g a1 g1).
-    { eapply (xstep_next prog name code a g i1 _ k (set_ops a [VFun (floc f) cbf])); [reflexivity|exact Hi1|apply dec_load|].
-      pose proof (exec_load f a g1 c0' (VFun (floc f) cbf) ltac:(rewrite (lookup_var_fs a g1 f Hcb); exact Hlv) Hvv) as Hx.
-      rewrite Hops in Hx. exact Hx. }
-    (* store_fast #(c+1) *)
-    set (i2 := mkI OP_STORE_FAST [reg (S c)]) in *.
-    destruct (reg_bind pins env s (trc name a1 g1 i2) (S c) (VFun (floc f) cbf) ltac:(apply Rg_trc; apply Rg_trc; exact HG))
-      as (g2 & Hb2 & HG2 & Ht2 & Hc2 & Ho2 & Hf2 & Hk2).
-    set (a2 := upd a (S (S k)) []).
-    assert (R2 : xrun prog name code a g a2 g2).
-    { eapply xrun_trans; [exact R1|].
-      eapply (xstep_next prog name code a1 g1 i2 _ (S k) (set_ops a1 [])); [reflexivity|exact Hi2|apply dec_store_fast|].
-      apply (exec_store_fast (reg (S c)) a1 _ (VFun (floc f) cbf) g2); [reflexivity|exact Hb2]. }
-    assert (Hrf2 : rv g2 (S c) (VFun (floc f) cbf)).
-    { eexists. split; [exact Hf2|]. unfold cell_get. rewrite Hc2, Nnat.Nat2N.id, nth_error_app2, Nat.sub_diag by lia. reflexivity. }
-    assert (Hcode : length args <= length code).
-    { assert (length args <= la). { unfold la. clear. generalize (S (S c)). induction args as [|e l IH]; intros n; cbn [argcode length]; [lia|].
-        rewrite !app_length. cbn [length]. specialize (IH (S n)). lia. } lia. }
-    assert (Hsmc : small (S (S c) + length args)) by (eapply small_le; [|exact Hsmall]; lia).
-    (* the arguments *)
-    pose proof (args_run args (S (S c)) (S (S k)) pins a2 g2 env s B [] (S fuel) Hoa Hb Hsmc ltac:(lia)
-                  Hca ltac:(fold la; lia) eq_refl eq_refl HG2) as Hargs.
-    fold la in Hargs.
-    destruct (evals_ (S fuel) env args s []) as [[vs s1]|r]; cbn [args_res] in Hargs.
-    2:{ destruct r as [? ?|?|fl s1|]; try contradiction; cbn [rhs_res]; [|exact Logic.I].
-        destruct Hargs as (-> & e0 & g' & Hf & Hr & Ho). apply fail_post_intro. exists e0, g'.
-        split; [eapply xrun_fail; [exact R2|exact Hf]|]. split; [now apply err_rel_s_of|exact Ho]. }
-    destruct Hargs as (-> & vs' & Evs & Hlv' & Hfos & g3 & R3 & HG3 & Ht3 & Hlow3 & Hreg3 & Hlk3).
-    cbn [rev app] in Evs. subst vs'.
-    set (a3 := upd a2 (S (S k) + la) []) in *.
-    (* reload the arguments, then the callee *)
-    destruct (loads_run args (map inj vs) (S (S c)) (S (S k) + la) a3 g3 ltac:(rewrite map_length; congruence)) as (g4 & R4 & Hf4 & Hc4 & HR4).
-    { intros j v Hj. rewrite nth_error_map in Hj. destruct (nth_error vs j) as [v0|] eqn:Ev; [|discriminate].
-      inversion Hj; subst v. now apply Hreg3. }
-    { exact Hcl. }
-    { reflexivity. }
-    cbn [a3 upd set_ops a_ops app] in R4. fold a3 in R4.
-    set (a4 := upd a3 (S (S k) + la + length args) (map inj vs)) in *.
-    assert (Hrf4 : rv g4 (S c) (VFun (floc f) cbf)).
-    { apply (rv_same g3 g4); [exact Hf4|intros cj w Hw; unfold cell_get in *; now rewrite Hc4|].
-      apply Hlow3; [lia|eapply small_le; [|exact Hsmc]; lia|exact Hrf2]. }
-    destruct Hrf4 as (cr & Fr & Cr).
-    set (i3 := mkI OP_LOAD_FAST [reg (S c)]) in *.
-    set (g5 := trc name a4 g4 i3).
-    set (a5 := upd a4 (S (S (S k) + la + length args)) (map inj vs ++ [VFun (floc f) cbf])).
-    assert (R5 : xrun prog name code a g a5 g5).
-    { eapply xrun_trans; [exact R2|]. eapply xrun_trans; [exact R3|]. eapply xrun_trans; [exact R4|].
-      eapply (xstep_next prog name code a4 g4 i3 _ (S (S k) + la + length args) (set_ops a4 (map inj vs ++ [VFun (floc f) cbf])));
-        [reflexivity| |apply dec_load_fast|].
-      - replace (S (S k) + la + length args) with (S (S k) + la + na) by lia. exact Hi3.
-      - exact (exec_load_fast (reg (S c)) a4 g5 cr (VFun (floc f) cbf) Fr Cr). }
-    assert (HG5 : Rg pins env s g5) by (apply Rg_trc; apply HR4; exact HG3).
-    set (i4 := mkI OP_CALL []) in *.
-    set (g5t := trc name a5 g5 i4).
-    assert (HG5t : Rg pins env s g5t) by (apply Rg_trc; exact HG5).
-    assert (Hi4' : nth_error code (a_ip a5) = Some i4).
-    { cbn [a5 upd set_ip a_ip]. replace (S (S (S k) + la + length args)) with (S (S (S k) + la + na)) by lia. exact Hi4. }
-    pose proof (exec_call a5 g5t (map inj vs) (floc f) cbf eq_refl) as Hx.
-    assert (Hfin : S (a_ip a5) = k + S (S (la + (na + 2)))) by (cbn [a5 upd set_ip a_ip]; lia).
-    assert (Htl5 : tl (frames g5t) = tl (frames g)).
-    { change (frames g5t) with (frames g4). rewrite Hf4, Ht3, Ht2. reflexivity. }
-    (* the callee *)
-    pose proof (Hcall (S fuel) ltac:(lia) f ps body c0 c0' cenv cbf Eft Efc vs s g5t Hfos ltac:(congruence)
-                  (Rg_out _ _ _ HG5t) (Rg_nd _ _ _ HG5t) (Rg_fvals _ _ _ _ HG5t)) as Hcal.
-    destruct (call_clos_ (S fuel) (RClos ps body cenv) vs s) as [v s1|s1|fl s1|]; cbn [rhs_res]; [| | |exact Logic.I].
-    - destruct Hcal as (Hfov & fuel' & g6 & Hrun & Hkeep). split; [exact Hfov|].
-      exists (next_act (set_ops a5 []) (Some (inj v))), g6. split; [|split; [|split; [|split; [|split; [|split]]]]].
-      + eapply xrun_trans; [exact R5|]. eapply xr_call; [exact Hi4'|apply dec_call|exact Hx|exact Hrun|apply xr_refl].
-      + unfold next_act. cbn [set_ip a_ip set_ops]. exact Hfin.
-      + reflexivity.
-      + eapply Rg_val_keep; [exact HG5t|exact Hkeep].
-      + rewrite (proj1 Hkeep). exact Htl5.
-      + repeat split.
-      + split; [reflexivity|]. rewrite (proj1 Hkeep). change (frames g5t) with (frames g4). rewrite Hf4.
-        eapply lkeepA_trans; [|exact Hlk3]. apply (lkeepA_other _ _ (reg (S c))); [intros k0 E; discriminate E|].
-        intros z Hz. exact (Hk2 z Hz).
-    - destruct Hcal as (fuel' & g6 & Hrun & Hkeep).
-      exists (next_act (set_ops a5 []) None), g6. split; [|split; [|split; [|split; [|split; [|split]]]]].
-      + eapply xrun_trans; [exact R5|]. eapply xr_call; [exact Hi4'|apply dec_call|exact Hx|exact Hrun|apply xr_refl].
-      + unfold next_act. cbn [set_ip a_ip set_ops]. exact Hfin.
-      + reflexivity.
-      + eapply Rg_val_keep; [exact HG5t|exact Hkeep].
-      + rewrite (proj1 Hkeep). exact Htl5.
-      + repeat split.
-      + split; [reflexivity|]. rewrite (proj1 Hkeep). change (frames g5t) with (frames g4). rewrite Hf4.
-        eapply lkeepA_trans; [|exact Hlk3]. apply (lkeepA_other _ _ (reg (S c))); [intros k0 E; discriminate E|].
-        intros z Hz. exact (Hk2 z Hz).
-    - eapply fail_post_map; [|exact Hcal]. intros (fuel' & e0 & g6 & Hrun & Hr & Ho). exists e0, g6.
-      split; [|split; assumption]. exists a5, g5. split; [exact R5|]. right.
-      exists i4, (DCall None), (floc f), cbf, (map inj vs), (set_ops a5 []), g5t, fuel'. auto using dec_call.
+        exists i4, DCallSelf, fnm, cb, (map inj vs), (set_ops a4 []), g4t, fuel'. auto.
+    - intros ea eb _ _. pure_only.
   Qed.
 
   (* ================================================================ Stage 1: straight-line statements *)
@@ -1466,6 +1858,9 @@ Section Sim.
 
   Lemma act_same_step : forall a a1 o, act_same a a1 -> act_same a (set_ip (set_ops a1 o) (S (a_ip a1))).
   Proof. intros a a1 o (A1 & A2 & A3). repeat split; assumption. Qed.
+
+  Lemma act_ext : forall a a1 ip ops, act_same a a1 -> a_ip a1 = ip -> a_ops a1 = ops -> a_ss a1 = a_ss a -> a1 = upd a ip ops.
+  Proof. intros [f0 i0 o0 ar0 c0 s0] [f1 i1 o1 ar1 c1 s1] ip ops (A1 & A2 & A3) H1 H2 H3. cbn in *. subst. reflexivity. Qed.
 
   Lemma assign_correct : forall x e, stmt_spec (SAssign x e).
   Proof.
@@ -1477,10 +1872,10 @@ Section Sim.
     apply items_at_app in Hit as [Hce Hi]. apply items_at_CI in Hce. rewrite map_length in Hi.
     apply items_at_cons in Hi as [Hi _]. cbn [item_instr] in Hi.
     destruct HR as (HG & Hops & Hss).
-    pose proof (rhs_run pins e fuel k a g env s B ltac:(lia) Hoe Hb Hce ltac:(lia) Hip Hcb Hops HG) as He.
+    pose proof (rhs_run e pins c fuel k a g env s B ltac:(lia) Hoe Hb ltac:(lia) Hce ltac:(lia) Hip Hcb Hops HG) as He.
     rewrite exec_SAssign.
     destruct (eval fuel env e s) as [v s1|s1|f s1|]; cbn [rhs_res] in He; [|exact Logic.I|exact He|exact Logic.I].
-    destruct He as (Hfo & a1 & g1 & R1 & Hip1 & Hops1 & HG1 & Hf1 & Ha1 & Hss1 & Hlk1).
+    destruct He as (Hfo & a1 & g1 & R1 & Hip1 & Hops1 & HG1 & Hf1 & Ha1 & Hss1 & Hlk1 & Hrk1).
     destruct (assign env s1 x v) as [env' s'] eqn:Ea.
     destruct (store_rel env s1 (trc name a1 g1 (mkI OP_STORE [x])) x v env' s' (Rg_trc _ _ _ _ _ _ HG1) Hx Hfo Ea)
       as (g2 & Hst & HG2 & Hd & Hbx & Htl & Hoth).
@@ -1508,10 +1903,10 @@ Section Sim.
     apply items_at_app in Hit as [Hce Hi]. apply items_at_CI in Hce. rewrite map_length in Hi.
     apply items_at_cons in Hi as [Hi1 Hi]. apply items_at_cons in Hi as [Hi2 _]. cbn [item_instr] in Hi1, Hi2.
     destruct HR as (HG & Hops & Hss).
-    pose proof (rhs_run pins e fuel k a g env s B ltac:(lia) Hoe Hb Hce ltac:(lia) Hip Hcb Hops HG) as He.
+    pose proof (rhs_run e pins c fuel k a g env s B ltac:(lia) Hoe Hb ltac:(lia) Hce ltac:(lia) Hip Hcb Hops HG) as He.
     rewrite exec_SPrint.
     destruct (eval fuel env e s) as [v s1|s1|f s1|]; cbn [rhs_res] in He; [|exact Logic.I|exact He|exact Logic.I].
-    destruct He as (Hfo & a1 & g1 & R1 & Hip1 & Hops1 & HG1 & Hf1 & Ha1 & Hss1 & Hlk1).
+    destruct He as (Hfo & a1 & g1 & R1 & Hip1 & Hops1 & HG1 & Hf1 & Ha1 & Hss1 & Hlk1 & Hrk1).
     destruct (show_inj v Hfo) as (l & Hrs & Hsh). rewrite Hrs.
     set (g2 := emit_line (trc name a1 g1 (mkI OP_PRINTN [s_star])) l).
     set (a2 := set_ip a1 (S (a_ip a1))).
@@ -1539,7 +1934,7 @@ Section Sim.
     apply items_at_app in Hit as [Hce Hi]. apply items_at_CI in Hce. rewrite map_length in Hi.
     apply items_at_cons in Hi as [Hi1 _]. cbn [item_instr] in Hi1.
     destruct HR as (HG & Hops & Hss).
-    pose proof (rhs_run pins e fuel k a g env s B ltac:(lia) Hoe Hb Hce ltac:(lia) Hip Hcb Hops HG) as He.
+    pose proof (rhs_run e pins c fuel k a g env s B ltac:(lia) Hoe Hb ltac:(lia) Hce ltac:(lia) Hip Hcb Hops HG) as He.
     rewrite exec_SExpr.
     assert (Hdone : forall s1 a1 g1, xrun prog name code a g a1 g1 -> a_ip a1 = k + length (xcode c e) -> Rg pins env s1 g1 ->
               tl (frames g1) = tl (frames g) -> act_same a a1 -> a_ss a1 = a_ss a -> lkeepA (frames g) (frames g1) ->
@@ -1555,8 +1950,8 @@ Section Sim.
       - exact Hf1.
       - apply lkeepA_lkeep. exact Hlk1. }
     destruct (eval fuel env e s) as [v s1|s1|f s1|]; cbn [rhs_res] in He; [| |exact He|exact Logic.I].
-    - destruct He as (Hfo & a1 & g1 & R1 & Hip1 & Hops1 & HG1 & Hf1 & Ha1 & Hss1 & Hlk1). eapply Hdone; eassumption.
-    - destruct He as (a1 & g1 & R1 & Hip1 & Hops1 & HG1 & Hf1 & Ha1 & Hss1 & Hlk1). eapply Hdone; eassumption.
+    - destruct He as (Hfo & a1 & g1 & R1 & Hip1 & Hops1 & HG1 & Hf1 & Ha1 & Hss1 & Hlk1 & Hrk1). eapply Hdone; eassumption.
+    - destruct He as (a1 & g1 & R1 & Hip1 & Hops1 & HG1 & Hf1 & Ha1 & Hss1 & Hlk1 & Hrk1). eapply Hdone; eassumption.
   Qed.
 
   Lemma assert_correct : forall e sp, stmt_spec (SAssert e sp).
@@ -1568,17 +1963,17 @@ Section Sim.
     apply items_at_app in Hit as [Hce Hi]. apply items_at_CI in Hce. rewrite map_length in Hi.
     apply items_at_cons in Hi as [Hi1 _]. cbn [item_instr] in Hi1.
     destruct HR as (HG & Hops & Hss).
-    pose proof (expr_run pins e c fuel k a g env s B Hoe Hb ltac:(lia) Hce ltac:(lia) Hip Hops HG) as He.
-    rewrite exec_SAssert.
-    destruct (eval fuel env e s) as [v s1|s1|f s1|]; [|contradiction| |exact Logic.I].
-    2:{ destruct He as (-> & e0 & g' & Hf & Hr & Ho). eapply post_expr_fail; eassumption. }
-    destruct He as (-> & Hfo & g1 & R1 & HG1 & Hf1 & Hlk1).
-    set (k1 := k + length (pcode c e)) in *.
+    pose proof (rhs_run e pins c fuel k a g env s B ltac:(lia) Hoe Hb ltac:(lia) Hce ltac:(lia) Hip Hcb Hops HG) as He.
+    rewrite exec_SAssert. rename s into s0.
+    destruct (eval fuel env e s0) as [v s|s|f s|]; cbn [rhs_res] in He; [|exact Logic.I|exact He|exact Logic.I].
+    destruct He as (Hfo & a1x & g1 & R1 & Hip1 & Hops1 & HG1 & Hf1 & Ha1 & Hss1 & Hlk1 & _).
+    rewrite (act_ext a a1x _ _ Ha1 Hip1 Hops1 Hss1) in R1. clear a1x Hip1 Hops1 Ha1 Hss1.
+    set (k1 := k + length (xcode c e)) in *.
     set (a1 := upd a k1 [inj v]) in *.
     set (i1 := mkI OP_ASSERT [sp]) in *.
     pose proof (exec_assert sp a1 (trc name a1 g1 i1) (inj v) eq_refl) as Hx.
     assert (Hfail : forall f e0, exec_d (DAssert (Some sp)) a1 (trc name a1 g1 i1) = SFail e0 -> err_rel_s f e0 ->
-                                 post pins lr sl bt ct (k + (length (pcode c e) + 1)) B env (frames g) a g (SFailed f s)).
+                                 post pins lr sl bt ct (k + (length (xcode c e) + 1)) B env (frames g) a g (SFailed f s)).
     { intros f e0 Hex Hrel. cbn [post]. apply fail_post_intro. exists e0, (trc name a1 g1 i1). split; [|split; [exact Hrel|exact (Rg_out _ _ _ HG1)]].
       eapply xrun_fail; [exact R1|]. eapply xstep_fail; [reflexivity|exact Hi1|apply dec_assert|exact Hex]. }
     destruct v as [z|[|]|t| |p bd ev]; cbn [inj val_equals] in Hx; try contradiction.
@@ -1607,12 +2002,12 @@ Section Sim.
     apply items_at_app in Hit as [Hce Hi]. apply items_at_CI in Hce. rewrite map_length in Hi.
     apply items_at_cons in Hi as [Hi1 Hi]. apply items_at_cons in Hi as [Hi2 _]. cbn [item_instr] in Hi1, Hi2.
     destruct HR as (HG & Hops & Hss).
-    pose proof (expr_run pins e (S c) fuel k a g env s B Hoe Hb ltac:(lia) Hce ltac:(lia) Hip Hops HG) as He.
-    rewrite exec_SOpAssign.
-    destruct (eval fuel env e s) as [v s1|s1|f s1|]; [|contradiction| |exact Logic.I].
-    2:{ destruct He as (-> & e0 & g' & Hf & Hr & Ho'). eapply post_expr_fail; eassumption. }
-    destruct He as (-> & Hfo & g1 & R1 & HG1 & Hf1 & Hlk1).
-    set (k1 := k + length (pcode (S c) e)) in *.
+    pose proof (rhs_run e pins (S c) fuel k a g env s B ltac:(lia) Hoe Hb ltac:(lia) Hce ltac:(lia) Hip Hcb Hops HG) as He.
+    rewrite exec_SOpAssign. rename s into s0.
+    destruct (eval fuel env e s0) as [v s|s|f s|]; cbn [rhs_res] in He; [|exact Logic.I|exact He|exact Logic.I].
+    destruct He as (Hfo & a1x & g1 & R1 & Hip1 & Hops1 & HG1 & Hf1 & Ha1 & Hss1 & Hlk1 & _).
+    rewrite (act_ext a a1x _ _ Ha1 Hip1 Hops1 Hss1) in R1. clear a1x Hip1 Hops1 Ha1 Hss1.
+    set (k1 := k + length (xcode (S c) e)) in *.
     set (a1 := upd a k1 [inj v]) in *.
     set (i1 := mkI OP_BIN_OP_ASSIGN [binop_sym o ++ [61%N]; x]) in *.
     set (g1t := trc name a1 g1 i1).
@@ -1924,19 +2319,19 @@ Section Sim.
     apply items_at_app in Hit as [Hce Hi]. apply items_at_CI in Hce. rewrite map_length in Hi.
     apply items_at_cons in Hi as [Hi1 Hib]. cbn [item_instr I] in Hi1.
     destruct HR as (HG & Hops & Hss).
-    pose proof (expr_run pins cnd c fuel k a g env s B Hoe Hb ltac:(lia) Hce ltac:(lia) Hip Hops HG) as He.
-    rewrite exec_SIf. cbn [after].
-    destruct (eval fuel env cnd s) as [v s1|s1|f s1|]; [|contradiction| |exact Logic.I].
-    2:{ destruct He as (-> & e0 & g' & Hf & Hr & Ho). eapply post_expr_fail; eassumption. }
-    destruct He as (-> & Hfo & g1 & R1 & HG1 & Hf1 & Hlk1).
-    set (k1 := k + length (pcode c cnd)) in *.
+    pose proof (rhs_run cnd pins c fuel k a g env s B ltac:(lia) Hoe Hb ltac:(lia) Hce ltac:(lia) Hip Hcb Hops HG) as He.
+    rewrite exec_SIf. cbn [after]. rename s into s0.
+    destruct (eval fuel env cnd s0) as [v s|s|f s|]; cbn [rhs_res] in He; [|exact Logic.I|exact He|exact Logic.I].
+    destruct He as (Hfo & a1x & g1 & R1 & Hip1 & Hops1 & HG1 & Hf1 & Ha1 & Hss1 & Hlk1 & _).
+    rewrite (act_ext a a1x _ _ Ha1 Hip1 Hops1 Hss1) in R1. clear a1x Hip1 Hops1 Ha1 Hss1.
+    set (k1 := k + length (xcode c cnd)) in *.
     set (a1 := upd a k1 [inj v]) in *.
     match type of Hi1 with _ = Some {| op := _; args := [sN ?n] |} => set (off := n) in * end.
     set (i1 := mkI OP_IF_STMT [sN off]) in *.
     assert (Hdec : decode i1 = DOk (DIf (Z.of_nat off))) by (apply dec_if; apply small_code; unfold off; lia).
     set (g1t := trc name a1 g1 i1).
     assert (HG1t : Rg pins env s g1t) by (apply Rg_trc; exact HG1).
-    assert (Hnb : (forall b, v <> RBool b) -> post pins lr sl bt ct (k + (length (pcode c cnd) + (1 + (length bi + 1)))) B env (frames g) a g
+    assert (Hnb : (forall b, v <> RBool b) -> post pins lr sl bt ct (k + (length (xcode c cnd) + (1 + (length bi + 1)))) B env (frames g) a g
                                                    (SFailed (FType 12) s)).
     { intros Hv. cbn [post]. apply fail_post_intro. exists E_not_bool, g1t. split; [|split; [cbn; auto|exact (Rg_out _ _ _ HG1)]].
       eapply xrun_fail; [exact R1|]. eapply xstep_fail; [reflexivity|exact Hi1|exact Hdec|].
@@ -1946,9 +2341,9 @@ Section Sim.
     destruct b.
     - (* true: push <if>, run the body, done *)
       set (a1' := upd a (S k1) []).
-      assert (Hblk : post pins lr sl bt ct (k + (length (pcode c cnd) + (1 + (length bi + 1)))) B env (frames g1t)
+      assert (Hblk : post pins lr sl bt ct (k + (length (xcode c cnd) + (1 + (length bi + 1)))) B env (frames g1t)
                           (set_ss a1' (S (a_ss a1'))) (push_frame g1t LIf) (in_block_ fuel body env s)).
-      { replace (k + (length (pcode c cnd) + (1 + (length bi + 1)))) with (S k1 + length bi + 1) by (unfold k1; lia).
+      { replace (k + (length (xcode c cnd) + (1 + (length bi + 1)))) with (S k1 + length bi + 1) by (unfold k1; lia).
         apply (in_block_run body Hbody pins lr il sl bt ct fuel (S k1) a1' g1t env s B LIf); try assumption; try reflexivity; try lia.
         - fold bi. unfold k1. lia.
         - fold bi. eapply lc_ok_mono; [exact Hlc|unfold k1; lia|reflexivity].
@@ -1986,18 +2381,18 @@ Section Sim.
     apply items_at_cons in Hi as [Hi2 Hi]. cbn [item_instr I] in Hi2.
     apply items_at_cons in Hi as [Hi3 Hie]. cbn [item_instr I] in Hi3.
     destruct HR as (HG & Hops & Hss).
-    pose proof (expr_run pins cnd c fuel k a g env s B Hoe Hb ltac:(lia) Hce ltac:(lia) Hip Hops HG) as He.
-    rewrite exec_SIfElse. cbn [after].
-    destruct (eval fuel env cnd s) as [v s1|s1|f s1|]; [|contradiction| |exact Logic.I].
-    2:{ destruct He as (-> & e0 & g' & Hf & Hr & Ho). eapply post_expr_fail; eassumption. }
-    destruct He as (-> & Hfo & g1 & R1 & HG1 & Hf1 & Hlk1).
-    set (k1 := k + length (pcode c cnd)) in *.
+    pose proof (rhs_run cnd pins c fuel k a g env s B ltac:(lia) Hoe Hb ltac:(lia) Hce ltac:(lia) Hip Hcb Hops HG) as He.
+    rewrite exec_SIfElse. cbn [after]. rename s into s0.
+    destruct (eval fuel env cnd s0) as [v s|s|f s|]; cbn [rhs_res] in He; [|exact Logic.I|exact He|exact Logic.I].
+    destruct He as (Hfo & a1x & g1 & R1 & Hip1 & Hops1 & HG1 & Hf1 & Ha1 & Hss1 & Hlk1 & _).
+    rewrite (act_ext a a1x _ _ Ha1 Hip1 Hops1 Hss1) in R1. clear a1x Hip1 Hops1 Ha1 Hss1.
+    set (k1 := k + length (xcode c cnd)) in *.
     set (a1 := upd a k1 [inj v]) in *.
     set (kj := S k1 + (length bi + 1)) in *.
     match type of Hi1 with _ = Some {| op := _; args := [sN ?n] |} => set (off := n) in * end.
     match type of Hi2 with _ = Some {| op := _; args := [sN ?n] |} => set (offj := n) in * end.
     set (i1 := mkI OP_IF_STMT [sN off]) in *.
-    set (fin := k + (length (pcode c cnd) + (1 + (length bi + 1 + (1 + S (length ei + 1)))))) in *.
+    set (fin := k + (length (xcode c cnd) + (1 + (length bi + 1 + (1 + S (length ei + 1)))))) in *.
     assert (Hfin : fin = S (S kj) + length ei + 1) by (unfold fin, kj, k1; lia).
     assert (Hdec : decode i1 = DOk (DIf (Z.of_nat off))) by (apply dec_if; apply small_code; unfold off; lia).
     set (g1t := trc name a1 g1 i1).
@@ -2113,9 +2508,9 @@ Section Sim.
     apply items_at_cons in Hi as [Hi1 Hi]. cbn [item_instr I] in Hi1.
     apply items_at_resolve in Hi. apply items_at_app in Hi as [Hib Hi2].
     apply items_at_cons in Hi2 as [Hi2 _]. cbn [item_instr I] in Hi2.
-    set (k1 := k + length (pcode c cnd)) in *.
+    set (k1 := k + length (xcode c cnd)) in *.
     set (kj := S k1 + length cb0) in *.
-    set (fin := k + (length (pcode c cnd) + (1 + (length cb0 + 1)))) in *.
+    set (fin := k + (length (xcode c cnd) + (1 + (length cb0 + 1)))) in *.
     assert (Hfin : fin = S kj) by (unfold fin, kj, k1; lia).
     replace (S k1 + (length cb0 + 1)) with fin in Hib by lia.
     replace (fin - 1) with kj in Hib by lia.
@@ -2133,11 +2528,11 @@ Section Sim.
     clear a g env s Hb Hlc Hip Hcb HR Hl1 Hfu fuel. intros fs0.
     induction fuel as [|fuel IH]; intros a g env s Hfu Hb Hlc Hip Hcb HR Hl1 Hfs Hlk0; [exact Logic.I|].
     destruct HR as (HG & Hops & Hss).
-    pose proof (expr_run pins cnd c fuel k a g env s B Hoe Hb ltac:(lia) Hce ltac:(lia) Hip Hops HG) as He.
-    rewrite exec_SWhile.
-    destruct (eval fuel env cnd s) as [v s1|s1|f s1|]; [|contradiction| |exact Logic.I].
-    2:{ destruct He as (-> & e0 & g' & Hf & Hr & Ho). eapply post_expr_fail; eassumption. }
-    destruct He as (-> & Hfo & g1 & R1 & HG1 & Hf1 & Hlk1).
+    pose proof (rhs_run cnd pins c fuel k a g env s B ltac:(lia) Hoe Hb ltac:(lia) Hce ltac:(lia) Hip Hcb Hops HG) as He.
+    rewrite exec_SWhile. rename s into s0.
+    destruct (eval fuel env cnd s0) as [v s|s|f s|]; cbn [rhs_res] in He; [|exact Logic.I|exact He|exact Logic.I].
+    destruct He as (Hfo & a1x & g1 & R1 & Hip1 & Hops1 & HG1 & Hf1 & Ha1 & Hss1 & Hlk1 & _).
+    rewrite (act_ext a a1x _ _ Ha1 Hip1 Hops1 Hss1) in R1. clear a1x Hip1 Hops1 Ha1 Hss1.
     fold k1 in R1.
     set (a1 := upd a k1 [inj v]) in *.
     set (g1t := trc name a1 g1 i1).
@@ -2191,7 +2586,7 @@ Section Sim.
               tl (frames g2) = frames g1t ->
               post pins lr sl bt ct fin B env fs0 a g (Eval.exec fuel (pop_scope env2) (SWhile cnd body) s2)).
     { intros a2 g2 R2 Hip2 HR2 Ha2 Hf2.
-      destruct (back_edge pins kj (1 + length cb0 + length (pcode c cnd)) k env2 s2 a2 g2 Hi2 ltac:(lia) ltac:(lia)
+      destruct (back_edge pins kj (1 + length cb0 + length (xcode c cnd)) k env2 s2 a2 g2 Hi2 ltac:(lia) ltac:(lia)
                   ltac:(unfold kj, k1; lia) Hip2 HR2 ltac:(lia)) as (g3 & R3 & HR3 & Hf3).
       eapply (post_seq pins lr sl bt ct fin B env fs0 a g (pop_scope env2) (set_ip a2 k) g3);
         [eapply xrun_trans; [exact R0|eapply xrun_trans; [exact R2|exact R3]]|exact Hd'| |].
@@ -3365,10 +3760,10 @@ Section Sim.
     apply items_at_cons in Hi as [Hi1 _]. cbn [item_instr I] in Hi1.
     destruct HR as (HG & Hops & Hss).
     assert (Hend' : k + length (xcode c e) < length code) by (destruct Hend as [H|[_ H]]; lia).
-    pose proof (rhs_run pins e fuel k a g env s B ltac:(lia) Hoe Hb Hce Hend' Hip Hcb Hops HG) as He.
+    pose proof (rhs_run e pins c fuel k a g env s B ltac:(lia) Hoe Hb ltac:(lia) Hce Hend' Hip Hcb Hops HG) as He.
     rewrite exec_SReturn.
     destruct (eval fuel env e s) as [v s1|s1|f s1|]; cbn [rhs_res] in He; [|exact Logic.I|exact He|exact Logic.I].
-    destruct He as (Hfo & a1 & g1 & R1 & Hip1 & Hops1 & HG1 & Hf1 & Ha1 & Hss1 & Hlk1).
+    destruct He as (Hfo & a1 & g1 & R1 & Hip1 & Hops1 & HG1 & Hf1 & Ha1 & Hss1 & Hlk1 & Hrk1).
     cbn [post]. split; [apply same_tl_refl; exact (Rg_ne _ _ _ HG)|].
     exists env, a1, g1.
     split; [exact R1|]. split; [rewrite Hip1; exact Hi1|]. split; [exact Hops1|]. split; [exact Hfo|]. split; [exact HG1|exact Ha1].
